@@ -341,7 +341,8 @@ Lemma finish_out w :
 Proof.
   cbv zeta. rewrite finish_spec. unfold finish_state, pre_summary.
   cbn [pw_raw pw_flush pw_set_rb pw_out pw_rb app].
-  rewrite !render_app, render_one. rewrite !render_cons, render_nil, app_nil_r.
+  rewrite render_cons, render_app, !render_cons, render_nil, app_nil_r.
+  change (render_item IMagic) with magic.
   rewrite <- !app_assoc. reflexivity.
 Qed.
 
@@ -349,3 +350,2203 @@ Lemma finish_rb w : pw_rb (pw_finish o w) = [].
 Proof. rewrite finish_spec. reflexivity. Qed.
 
 End Proj.
+
+(* ====================================================================== *)
+(** * 1b. the output is the rendering of the trace *)
+
+Definition is_start (c : pcall) : bool := match c with PcStart _ _ => true | _ => false end.
+Definition is_finish (c : pcall) : bool := match c with PcFinish => true | _ => false end.
+Definition no_start (cs : list pcall) : bool := forallb (fun c => negb (is_start c)) cs.
+(* the calls between start and finish *)
+Definition data_calls (cs : list pcall) : bool := forallb (fun c => negb (is_start c) && negb (is_finish c)) cs.
+
+Lemma data_calls_no_start cs : data_calls cs = true -> no_start cs = true.
+Proof.
+  unfold data_calls, no_start. rewrite !forallb_forall. intros H c Hc. specialize (H c Hc).
+  apply andb_true_iff in H. apply H.
+Qed.
+
+(* everything the stream and the record builder hold *)
+Definition obytes (w : pw) : bytes := pw_out w ++ pw_rb w.
+
+Section Bytes.
+Variable o : pwopts.
+
+Lemma fin_bytes w : obytes (pw_finalize_chunk o w) = obytes w ++ render (fin_items o (pw_cb w)).
+Proof.
+  destruct (pw_cb w) as [cb|] eqn:Hcb.
+  - cbn [fin_items]. destruct (cb_num cb =? 0) eqn:Hn.
+    + rewrite (fin_zero o w cb Hcb Hn), render_nil, app_nil_r. reflexivity.
+    + rewrite (fin_spec o w cb Hcb Hn). unfold obytes, fin_state. cbn [pw_out pw_rb].
+      rewrite render_cons, app_nil_r, <- !app_assoc. reflexivity.
+  - rewrite (fin_none o w Hcb). cbn [fin_items]. rewrite render_nil, app_nil_r. reflexivity.
+Qed.
+
+Lemma maybe_bytes w : obytes (pw_maybe_finalize o w) = obytes w ++ render (maybe_items o (pw_cb w)).
+Proof.
+  unfold pw_maybe_finalize, maybe_items. destruct (pw_cb w) as [cb|] eqn:Hcb.
+  - destruct (po_chunk_size o <? blen (cb_buf cb)).
+    + rewrite fin_bytes, Hcb. reflexivity.
+    + rewrite render_nil, app_nil_r. reflexivity.
+  - rewrite render_nil, app_nil_r. reflexivity.
+Qed.
+
+Lemma render_attach a d :
+  render_item (IAttach a d (crc32 (enc_attachment_fields a ++ d)))
+  = frame OpAttachment ((enc_attachment_fields a ++ d) ++ u32 (crc32 (enc_attachment_fields a ++ d))).
+Proof. cbn [render_item]. rewrite <- app_assoc. reflexivity. Qed.
+
+Lemma step_bytes w c :
+  is_start c = false -> obytes (pw_step o w c) = obytes w ++ render (pt_step o w c).
+Proof.
+  destruct c as [p l|n e d|t me sid m|ch lg d pb sq|cr lg n me d|n m|]; intro Hs; [discriminate| | | | | |].
+  - cbn [pw_step pt_step]. unfold pw_data_record, data_rec_items. cbn [pw_cb].
+    destruct (pw_cb w) as [cb|] eqn:Hcb.
+    + rewrite maybe_bytes. reflexivity.
+    + unfold obytes. cbn [pw_set_rb pw_out pw_rb]. rewrite render_one, app_assoc. reflexivity.
+  - cbn [pw_step pt_step]. unfold pw_data_record, data_rec_items. cbn [pw_cb].
+    destruct (pw_cb w) as [cb|] eqn:Hcb.
+    + rewrite maybe_bytes. reflexivity.
+    + unfold obytes. cbn [pw_set_rb pw_out pw_rb]. rewrite render_one, app_assoc. reflexivity.
+  - cbn [pw_step pt_step pw_set_stats pw_cb]. destruct (pw_cb w) as [cb|] eqn:Hcb.
+    + rewrite maybe_bytes. reflexivity.
+    + unfold obytes. cbn [pw_flush pw_set_rb pw_out pw_rb]. rewrite render_one, app_nil_r, app_assoc. reflexivity.
+  - cbn [pw_step pt_step]. unfold obytes. cbn [pw_flush pw_out pw_rb app].
+    rewrite render_one, render_attach, app_nil_r. reflexivity.
+  - cbn [pw_step pt_step]. unfold obytes. cbn [pw_flush pw_out pw_rb app].
+    rewrite render_one, app_nil_r. reflexivity.
+  - cbn [pw_step pt_step]. unfold obytes at 1. rewrite finish_rb, app_nil_r, finish_out. cbv zeta.
+    fold (obytes (pw_finalize_chunk o w)). rewrite fin_bytes. unfold finish_items.
+    rewrite (render_app (fin_items o (pw_cb w))), <- app_assoc. reflexivity.
+Qed.
+
+Lemma start_bytes w p l :
+  pw_rb w = [] -> obytes (pw_step o w (PcStart p l)) = obytes w ++ render (pt_step o w (PcStart p l)).
+Proof.
+  intro Hrb. cbn [pw_step pt_step]. unfold obytes. cbn [pw_flush pw_set_rb pw_raw pw_out pw_rb]. rewrite Hrb.
+  cbn [app]. rewrite render_cons, render_one, !app_nil_r, app_assoc. reflexivity.
+Qed.
+
+Lemma steps_bytes cs : forall w,
+  no_start cs = true -> obytes (pw_steps o w cs) = obytes w ++ render (trace_from o w cs).
+Proof.
+  induction cs as [|c cs IH]; intros w Hns.
+  - cbn [trace_from]. rewrite render_nil, app_nil_r. reflexivity.
+  - cbn [no_start forallb] in Hns. apply andb_true_iff in Hns. destruct Hns as [Hc Hns].
+    apply negb_true_iff in Hc. unfold pw_steps. cbn [fold_left trace_from]. fold (pw_steps o (pw_step o w c) cs).
+    rewrite (IH _ Hns), (step_bytes w c Hc), render_app, app_assoc. reflexivity.
+Qed.
+
+Lemma steps_rb_finish w cs : pw_rb (pw_steps o w (cs ++ [PcFinish])) = [].
+Proof. rewrite pw_steps_app. unfold pw_steps at 1. cbn [fold_left pw_step]. apply finish_rb. Qed.
+
+(* Theorem 1: the bytes written are the rendering of the trace *)
+Theorem py_write_is_trace p l cs b :
+  py_write o (PcStart p l :: cs ++ [PcFinish]) = POk b -> no_start cs = true ->
+  b = render (py_trace o (PcStart p l :: cs ++ [PcFinish])).
+Proof.
+  intros Hw Hns. unfold py_write in Hw.
+  destruct (pw_run o (pw_init o) (PcStart p l :: cs ++ [PcFinish])) as [w'| |] eqn:Hr; try discriminate.
+  cbn [pbind] in Hw. injection Hw as <-. apply pw_run_steps in Hr. subst w'.
+  assert (Hrb : pw_rb (pw_steps o (pw_init o) (PcStart p l :: cs ++ [PcFinish])) = []).
+  { change (PcStart p l :: cs ++ [PcFinish]) with ((PcStart p l :: cs) ++ [PcFinish]). apply steps_rb_finish. }
+  assert (H : obytes (pw_steps o (pw_init o) (PcStart p l :: cs ++ [PcFinish]))
+              = render (py_trace o (PcStart p l :: cs ++ [PcFinish]))).
+  { unfold py_trace. unfold pw_steps. cbn [fold_left trace_from].
+    fold (pw_steps o (pw_step o (pw_init o) (PcStart p l)) (cs ++ [PcFinish])).
+    rewrite steps_bytes.
+    - rewrite (start_bytes (pw_init o) p l eq_refl), render_app. reflexivity.
+    - unfold no_start in *. rewrite forallb_app, Hns. reflexivity. }
+  unfold obytes in H. rewrite Hrb, app_nil_r in H. exact H.
+Qed.
+
+(* at any point after start, stream ++ record builder is the rendering of the items so far *)
+Theorem py_run_is_trace p l cs w :
+  pw_run o (pw_init o) (PcStart p l :: cs) = POk w -> no_start cs = true ->
+  pw_out w ++ pw_rb w = render (py_trace o (PcStart p l :: cs)).
+Proof.
+  intros Hr Hns. apply pw_run_steps in Hr. subst w. fold (obytes (pw_steps o (pw_init o) (PcStart p l :: cs))).
+  unfold py_trace, pw_steps. cbn [fold_left trace_from]. fold (pw_steps o (pw_step o (pw_init o) (PcStart p l)) cs).
+  rewrite (steps_bytes cs _ Hns), (start_bytes (pw_init o) p l eq_refl), render_app. reflexivity.
+Qed.
+
+End Bytes.
+
+(* ====================================================================== *)
+(** * 2. the trace is a well-formed file for the Go lexer *)
+
+(* ---------- 2a. ghost: the records in the chunk builder ---------- *)
+Definition auto_rec (r : byte * bytes) : Prop := fst r = OpSchema \/ fst r = OpChannel \/ fst r = OpMessage.
+Definition is_msg_rec (r : byte * bytes) : bool := Byte.eqb (fst r) OpMessage.
+
+Definition after_fin (cb : pcb) (inner : list (byte * bytes)) : list (byte * bytes) :=
+  if cb_num cb =? 0 then inner else [].
+Definition after_maybe (o : pwopts) (cb : pcb) (inner : list (byte * bytes)) : list (byte * bytes) :=
+  if po_chunk_size o <? blen (cb_buf cb) then after_fin cb inner else inner.
+
+(* the records the chunk builder holds after call c, given those it held before *)
+Definition inner_step (o : pwopts) (w : pw) (inner : list (byte * bytes)) (c : pcall) : list (byte * bytes) :=
+  match pw_cb w with
+  | None => inner
+  | Some cb =>
+    match c with
+    | PcSchema n e d =>
+      let body := enc_schema (schema_of w n e d) in
+      after_maybe o (cb_add_record cb OpSchema body) (inner ++ [(OpSchema, body)])
+    | PcChannel t me sid m =>
+      let body := py_enc_channel (channel_of w t me sid m) in
+      after_maybe o (cb_add_record cb OpChannel body) (inner ++ [(OpChannel, body)])
+    | PcMessage ch lg d pb sq =>
+      let m := msg_of ch lg d pb sq in
+      after_maybe o (cb_add_message cb m) (inner ++ [(OpMessage, enc_message m)])
+    | PcFinish => after_fin cb inner
+    | _ => inner
+    end
+  end.
+
+Fixpoint inner_steps (o : pwopts) (w : pw) (inner : list (byte * bytes)) (cs : list pcall) : list (byte * bytes) :=
+  match cs with
+  | [] => inner
+  | c :: r => inner_steps o (pw_step o w c) (inner_step o w inner c) r
+  end.
+
+Definition cb_ok (cb : pcb) (inner : list (byte * bytes)) : Prop :=
+  cb_buf cb = frames inner /\ cb_start cb < two64 /\ cb_end cb < two64 /\ Forall auto_rec inner
+  /\ cb_num cb = N.of_nat (length (filter is_msg_rec inner)).
+
+Definition SInv (w : pw) (inner : list (byte * bytes)) : Prop :=
+  match pw_cb w with Some cb => cb_ok cb inner | None => inner = [] end.
+
+(* what holds of every emitted item by construction (sizes aside) *)
+Definition item_built (it : item) : Prop :=
+  match it with
+  | IMagic => False
+  | IRec op body => op <> OpChunk /\ op <> OpAttachment /\ op <> x00
+  | IChunk k =>
+    k_start k < two64 /\ k_end k < two64 /\ k_comp k = [] /\ k_usize k = blen (k_records k)
+    /\ (k_crc k = 0 \/ k_crc k = crc32 (k_records k))
+    /\ exists inner, k_records k = frames inner /\ Forall auto_rec inner
+  | IAttach a data crc =>
+    a_log a < two64 /\ a_create a < two64 /\ blen (a_name a) < two32 /\ blen (a_media a) < two32
+    /\ a_size a = blen data /\ crc = crc32 (enc_attachment_fields a ++ data)
+  | IFooter ss sos crc => crc < two32
+  end.
+
+Lemma ltb_true a b : (a <? b) = true -> a < b.
+Proof. apply N.ltb_lt. Qed.
+
+Lemma frames_snoc inner op body : frames (inner ++ [(op, body)]) = frames inner ++ frame op body.
+Proof. unfold frames. rewrite map_app, concat_app. cbn [map concat frame_of fst snd]. rewrite app_nil_r. reflexivity. Qed.
+
+Lemma cb_ok_empty : cb_ok cb_empty [].
+Proof. unfold cb_ok, cb_empty. cbn [cb_buf cb_start cb_end cb_num]. repeat split; try reflexivity. constructor. Qed.
+
+Lemma cb_ok_add_record cb inner op body :
+  cb_ok cb inner -> op = OpSchema \/ op = OpChannel -> cb_ok (cb_add_record cb op body) (inner ++ [(op, body)]).
+Proof.
+  intros (Hb & Hs & He & Ha & Hn) Hop. unfold cb_ok, cb_add_record. cbn [cb_buf cb_start cb_end cb_num].
+  rewrite frames_snoc, Hb. repeat split; try assumption.
+  - apply Forall_app. split; [exact Ha|]. constructor; [|constructor]. unfold auto_rec. cbn [fst]. tauto.
+  - rewrite filter_app. cbn [filter is_msg_rec fst]. destruct Hop as [-> | ->]; cbn; rewrite app_nil_r; exact Hn.
+Qed.
+
+Lemma cb_ok_add_message cb inner m :
+  cb_ok cb inner -> m_log m < two64 -> cb_ok (cb_add_message cb m) (inner ++ [(OpMessage, enc_message m)]).
+Proof.
+  intros (Hb & Hs & He & Ha & Hn) Hl. unfold cb_ok, cb_add_message. cbn [cb_buf cb_start cb_end cb_num].
+  rewrite frames_snoc, Hb. repeat split.
+  - destruct (cb_num cb =? 0); lia.
+  - lia.
+  - apply Forall_app. split; [exact Ha|]. constructor; [|constructor]. unfold auto_rec. cbn [fst]. tauto.
+  - rewrite filter_app. cbn [filter]. change (is_msg_rec (OpMessage, enc_message m)) with true. cbn iota.
+    rewrite app_length. cbn [length]. lia.
+Qed.
+
+Section Built.
+Variable o : pwopts.
+
+Lemma chunk_built cb inner : cb_ok cb inner -> item_built (IChunk (chunk_of o cb)).
+Proof.
+  intros (Hb & Hs & He & Ha & Hn). cbn [item_built chunk_of k_start k_end k_comp k_usize k_records k_crc].
+  repeat split; try assumption.
+  - destruct (po_crcs o); [right|left]; reflexivity.
+  - exists inner. split; assumption.
+Qed.
+
+Lemma mi_items_built cb : Forall item_built (mi_items o cb).
+Proof.
+  unfold mi_items. destruct (po_idx_msg o); [|constructor]. apply Forall_forall. intros it Hit.
+  apply in_map_iff in Hit. destruct Hit as (p & <- & _). cbn. repeat split; discriminate.
+Qed.
+
+Lemma fin_items_built cb inner : cb_ok cb inner -> Forall item_built (fin_items o (Some cb)).
+Proof.
+  intro H. cbn [fin_items]. destruct (cb_num cb =? 0); [constructor|].
+  constructor; [eapply chunk_built; exact H | apply mi_items_built].
+Qed.
+
+Lemma fin_SInv w inner :
+  SInv w inner ->
+  SInv (pw_finalize_chunk o w) (match pw_cb w with Some cb => after_fin cb inner | None => inner end).
+Proof.
+  unfold SInv. destruct (pw_cb w) as [cb|] eqn:Hcb.
+  - intro H. unfold after_fin. destruct (cb_num cb =? 0) eqn:Hn.
+    + rewrite (fin_zero o w cb Hcb Hn), Hcb. exact H.
+    + rewrite (fin_spec o w cb Hcb Hn). cbn [fin_state pw_cb]. apply cb_ok_empty.
+  - intro H. rewrite (fin_none o w Hcb), Hcb. exact H.
+Qed.
+
+Lemma maybe_inv w cb inner :
+  pw_cb w = Some cb -> cb_ok cb inner ->
+  Forall item_built (maybe_items o (Some cb)) /\ SInv (pw_maybe_finalize o w) (after_maybe o cb inner).
+Proof.
+  intros Hcb Hok. unfold maybe_items, pw_maybe_finalize, after_maybe. rewrite Hcb.
+  destruct (po_chunk_size o <? blen (cb_buf cb)).
+  - split; [eapply fin_items_built; exact Hok|].
+    assert (H : SInv w inner) by (unfold SInv; rewrite Hcb; exact Hok).
+    apply fin_SInv in H. rewrite Hcb in H. exact H.
+  - split; [constructor|]. unfold SInv. rewrite Hcb. exact Hok.
+Qed.
+
+Lemma step_built w inner c :
+  SInv w inner -> pcall_ok w c = true -> is_start c = false -> is_finish c = false ->
+  Forall item_built (pt_step o w c) /\ SInv (pw_step o w c) (inner_step o w inner c).
+Proof.
+  intros HI Hok Hs Hf. unfold SInv in HI.
+  destruct c as [p l|n e d|t me sid m|ch lg d pb sq|cr lg n me d|n m|]; try discriminate.
+  - cbn [pw_step pt_step]. unfold pw_data_record, data_rec_items, inner_step. cbn [pw_cb].
+    destruct (pw_cb w) as [cb|] eqn:Hcb.
+    + apply maybe_inv; [reflexivity|]. apply cb_ok_add_record; [exact HI | left; reflexivity].
+    + split; [constructor; [|constructor]; cbn; repeat split; discriminate|].
+      unfold SInv. cbn [pw_set_rb pw_cb]. rewrite ?Hcb. exact HI.
+  - cbn [pw_step pt_step]. unfold pw_data_record, data_rec_items, inner_step. cbn [pw_cb].
+    destruct (pw_cb w) as [cb|] eqn:Hcb.
+    + apply maybe_inv; [reflexivity|]. apply cb_ok_add_record; [exact HI | right; reflexivity].
+    + split; [constructor; [|constructor]; cbn; repeat split; discriminate|].
+      unfold SInv. cbn [pw_set_rb pw_cb]. rewrite ?Hcb. exact HI.
+  - cbn [pw_step pt_step pw_set_stats pw_cb]. unfold inner_step.
+    destruct (pw_cb w) as [cb|] eqn:Hcb.
+    + apply maybe_inv; [reflexivity|]. apply cb_ok_add_message; [exact HI|].
+      cbn [pcall_ok] in Hok. apply andb_true_iff in Hok. destruct Hok as [Hok _].
+      apply andb_true_iff in Hok. destruct Hok as [Hok _]. apply andb_true_iff in Hok. destruct Hok as [_ Hok].
+      cbn [msg_of m_log]. apply ltb_true, Hok.
+    + split; [constructor; [|constructor]; cbn; repeat split; discriminate|].
+      unfold SInv. cbn [pw_flush pw_set_rb pw_set_stats pw_cb]. rewrite ?Hcb. exact HI.
+  - cbn [pw_step pt_step]. split.
+    + constructor; [|constructor]. cbn [pcall_ok] in Hok.
+      apply andb_true_iff in Hok. destruct Hok as [Hok H4]. apply andb_true_iff in Hok. destruct Hok as [Hok H3].
+      apply andb_true_iff in Hok. destruct Hok as [H1 H2].
+      cbn [item_built att_of a_log a_create a_name a_media a_size].
+      repeat split; try reflexivity; apply ltb_true; assumption.
+    + unfold SInv, inner_step. cbn [pw_flush pw_cb]. destruct (pw_cb w); exact HI.
+  - cbn [pw_step pt_step]. split.
+    + constructor; [|constructor]. cbn. repeat split; discriminate.
+    + unfold SInv, inner_step. cbn [pw_flush pw_cb]. destruct (pw_cb w); exact HI.
+Qed.
+
+Lemma Forall_map_rec {A} op (f : A -> bytes) l :
+  op <> OpChunk -> op <> OpAttachment -> op <> x00 -> Forall item_built (map (fun x => IRec op (f x)) l).
+Proof.
+  intros H1 H2 H3. apply Forall_forall. intros it Hit. apply in_map_iff in Hit. destruct Hit as (x & <- & _).
+  cbn. repeat split; assumption.
+Qed.
+
+Lemma Forall_if {A} (P : A -> Prop) (b : bool) l : Forall P l -> Forall P (if b then l else []).
+Proof. destruct b; [auto | constructor]. Qed.
+
+Lemma sum_items_built w : Forall item_built (sum_items o w).
+Proof.
+  unfold sum_items. repeat (apply Forall_app; split); apply Forall_if;
+    try (apply Forall_map_rec; discriminate).
+  constructor; [|constructor]. cbn. repeat split; discriminate.
+Qed.
+
+Lemma summary_built w : Forall item_built (summary_of o w).
+Proof.
+  unfold summary_of. apply Forall_app. split; [apply sum_items_built|].
+  unfold so_items. apply Forall_if. apply Forall_map_rec; discriminate.
+Qed.
+
+Lemma footer_crc_lt w : footer_crc o w < two32.
+Proof. unfold footer_crc. destruct (po_crcs o); [apply crc32_lt_two32 | unfold two32; lia]. Qed.
+
+Definition finish_recs (w : pw) : list item :=
+  let w1 := pw_finalize_chunk o w in
+  fin_items o (pw_cb w) ++ [dataend_item w1] ++ summary_of o w1
+  ++ [IFooter (footer_ss o w1) (footer_sos o w1) (footer_crc o w1)].
+
+Lemma finish_items_split w : finish_items o w = finish_recs w ++ [IMagic].
+Proof.
+  unfold finish_items, finish_recs. cbv zeta. rewrite <- !app_assoc. reflexivity.
+Qed.
+
+Lemma finish_built w inner : SInv w inner -> Forall item_built (finish_recs w).
+Proof.
+  intro HI. unfold finish_recs. cbv zeta. apply Forall_app. split; [|cbn [app]; constructor; [|apply Forall_app; split]].
+  - unfold SInv in HI. destruct (pw_cb w) as [cb|]; [eapply fin_items_built; exact HI | constructor].
+  - cbn. repeat split; discriminate.
+  - apply summary_built.
+  - constructor; [|constructor]. cbn [item_built]. apply footer_crc_lt.
+Qed.
+
+Lemma data_built cs : forall w inner w',
+  SInv w inner -> data_calls cs = true -> pw_run o w cs = POk w' ->
+  Forall item_built (trace_from o w cs) /\ SInv w' (inner_steps o w inner cs).
+Proof.
+  induction cs as [|c cs IH]; intros w inner w' HI Hd Hr.
+  - cbn [pw_run] in Hr. injection Hr as <-. split; [constructor | exact HI].
+  - cbn [data_calls forallb] in Hd. apply andb_true_iff in Hd. destruct Hd as [Hc Hd].
+    apply andb_true_iff in Hc. destruct Hc as [Hs Hf]. apply negb_true_iff in Hs. apply negb_true_iff in Hf.
+    cbn [pw_run] in Hr. destruct (pcall_ok w c) eqn:Hok; [|discriminate].
+    destruct (step_built w inner c HI Hok Hs Hf) as [Hb HI'].
+    destruct (IH _ _ _ HI' Hd Hr) as [Hb' HI''].
+    cbn [trace_from inner_steps]. split; [apply Forall_app; split; assumption | exact HI''].
+Qed.
+
+End Built.
+
+(* ---------- 2b. size bounds, wf_item ---------- *)
+Lemma frames_body_le inner : Forall (fun r => blen (snd r) <= blen (frames inner)) inner.
+Proof.
+  induction inner as [|r inner IH]; [constructor|]. rewrite frames_cons, blen_app, pyw_blen_frame.
+  constructor; [lia|]. eapply Forall_impl; [|exact IH]. cbv beta. intros a Ha. lia.
+Qed.
+
+Lemma two63_lt_two64 n : n < two63 -> n < two64.
+Proof. unfold two63, two64. lia. Qed.
+
+Section WF.
+Variable lo : lopts.
+Variable ds : doracle.
+
+Definition rec_size_ok (r : byte * bytes) : Prop := blen (snd r) < max_int32 /\ len_ok lo (blen (snd r)).
+
+(* the size side conditions of LexSpec.wf_item *)
+Definition item_size_ok (it : item) : Prop :=
+  match it with
+  | IMagic => True
+  | IRec op body => rec_size_ok (op, body)
+  | IChunk k =>
+    len_ok lo (blen (enc_chunk k)) /\ blen (k_records k) < two63
+    /\ Forall rec_size_ok (split_records (length (k_records k)) (k_records k))
+    /\ (lo_validate lo = true ->
+        2 * k_usize k < max_int32 /\ ((0 <? lo_max_chunk lo) && (lo_max_chunk lo <? k_usize k)) = false)
+  | IAttach a data crc => blen (attach_body a data crc) < two63 /\ len_ok lo (blen (attach_body a data crc))
+  | IFooter ss sos crc => ss < two64 /\ sos < two64 /\ len_ok lo 20
+  end.
+
+Hypothesis Hemit : lo_emit_chunks lo = false.
+Hypothesis Hcustom : mem_bytes [] (lo_custom lo) = false.
+Hypothesis Hcb : lo_cb lo = CbNone \/ lo_cb lo = CbFull.
+
+Lemma chunk_stream_stored recs : chunk_stream lo ds [] recs None = (recs, None).
+Proof. unfold chunk_stream. rewrite Hcustom. reflexivity. Qed.
+
+Lemma built_wf it : item_built it -> item_size_ok it -> wf_item lo ds it.
+Proof.
+  destruct it as [|op body|k|a data crc|ss sos crc]; cbn [item_built item_size_ok wf_item].
+  - intros [] _.
+  - intros (H1 & H2 & H3) (H4 & H5). unfold plain_rec_ok. cbn [fst snd] in *. repeat split; assumption.
+  - intros (Hs & He & Hc & Hu & Hcrc & inner & Hr & Ha) (Hl & H63 & Hsz & Hv).
+    unfold wf_chunk_item. rewrite Hemit.
+    assert (H64 : Forall (fun r => blen (snd r) < two64) inner).
+    { eapply Forall_impl; [|apply frames_body_le]. cbv beta. intros r Hle. rewrite <- Hr in Hle.
+      apply two63_lt_two64. lia. }
+    rewrite Hr, split_records_frames in Hsz by (exact H64 || lia).
+    split; [|split; [exact Hl|]].
+    + unfold wf_chunk. rewrite Hc, Hu. repeat split; try assumption; try (apply two63_lt_two64, H63); try reflexivity.
+      destruct Hcrc as [-> | ->]; [reflexivity | apply crc32_lt_two32].
+    + split; [rewrite Hc; unfold comp_supported; cbn [bytes_eqb]; rewrite orb_true_r; reflexivity|].
+      split; [rewrite Hc; reflexivity|]. split; [exact H63|].
+      exists inner. rewrite Hc, chunk_stream_stored, <- Hr. split; [reflexivity|]. split; [exact Hu|].
+      split.
+      * clear - Ha Hsz. induction Ha as [|r inner Hr _ IH]; [constructor|].
+        inversion Hsz as [|x y (Hx1 & Hx2) Hy]; subst x y. constructor; [|apply IH, Hy].
+        unfold plain_rec_ok. destruct r as [op body]. unfold auto_rec in Hr. cbn [fst snd] in *.
+        destruct Hr as [-> | [-> | ->]]; repeat split; try discriminate; assumption.
+      * split; [exact Hcrc|]. intro Hval. destruct (Hv Hval) as [Hv1 Hv2]. split; [exact Hv1|].
+        split; [exact Hv2|]. rewrite Hcustom. discriminate.
+  - intros (H1 & H2 & H3 & H4 & H5 & ->) (H6 & H7). unfold wf_attach_item.
+    repeat split; try assumption. apply crc32_lt_two32.
+  - intros H1 (H2 & H3 & H4). repeat split; assumption.
+Qed.
+
+Lemma built_wf_all l : Forall item_built l -> Forall item_size_ok l -> Forall (wf_item lo ds) l.
+Proof.
+  induction 1 as [|it l Hb _ IH]; intro Hs; [constructor|]. inversion Hs; subst. constructor; [apply built_wf|apply IH]; assumption.
+Qed.
+
+End WF.
+
+Lemma pw_run_app o a : forall b w w',
+  pw_run o w (a ++ b) = POk w' -> exists w1, pw_run o w a = POk w1 /\ pw_run o w1 b = POk w'.
+Proof.
+  induction a as [|c a IH]; intros b w w' H.
+  - exists w. split; [reflexivity | exact H].
+  - cbn [app pw_run] in *. destruct (pcall_ok w c); [|discriminate]. apply IH, H.
+Qed.
+
+Lemma py_write_run o cs b : py_write o cs = POk b -> exists w, pw_run o (pw_init o) cs = POk w /\ b = pw_out w.
+Proof.
+  unfold py_write. destruct (pw_run o (pw_init o) cs) as [w| |]; try discriminate. cbn [pbind].
+  intro H. injection H as <-. exists w. split; reflexivity.
+Qed.
+
+Section Main.
+Variable o : pwopts.
+
+(* the state after start() *)
+Definition started (p l : bytes) : pw := pw_step o (pw_init o) (PcStart p l).
+
+Lemma started_SInv p l : SInv (started p l) [].
+Proof.
+  unfold SInv, started. cbn [pw_step pw_flush pw_set_rb pw_raw pw_cb pw_init].
+  destruct (po_chunking o); [apply cb_ok_empty | reflexivity].
+Qed.
+
+Definition header_item (p l : bytes) : item := IRec OpHeader (enc_header {| h_profile := p; h_library := l |}).
+
+(* shape of the trace of a complete session *)
+Theorem py_trace_shape p l cs :
+  py_trace o (PcStart p l :: cs ++ [PcFinish])
+  = [IMagic] ++ (header_item p l :: trace_from o (started p l) cs ++ finish_recs o (pw_steps o (started p l) cs)) ++ [IMagic].
+Proof.
+  unfold py_trace. cbn [trace_from pt_step]. fold (started p l). rewrite trace_from_app. cbn [trace_from pt_step].
+  rewrite app_nil_r, finish_items_split. cbn [app]. rewrite <- !app_assoc. reflexivity.
+Qed.
+
+Variable lo : lopts.
+Variable ds : doracle.
+
+(* Theorem 2: well-formedness *)
+Theorem py_trace_wf p l cs b :
+  lo_skip_magic lo = false -> lo_emit_chunks lo = false -> mem_bytes [] (lo_custom lo) = false ->
+  lo_cb lo = CbNone \/ lo_cb lo = CbFull ->
+  py_write o (PcStart p l :: cs ++ [PcFinish]) = POk b -> data_calls cs = true ->
+  Forall (item_size_ok lo) (py_trace o (PcStart p l :: cs ++ [PcFinish])) ->
+  wf_file lo ds (py_trace o (PcStart p l :: cs ++ [PcFinish])).
+Proof.
+  intros Hskip Hemit Hcustom Hcb Hw Hd Hsz.
+  destruct (py_write_run _ _ _ Hw) as (w' & Hr & _).
+  cbn [pw_run] in Hr. destruct (pcall_ok (pw_init o) (PcStart p l)); [|discriminate]. fold (started p l) in Hr.
+  apply pw_run_app in Hr. destruct Hr as (w1 & Hr1 & _).
+  destruct (data_built o cs _ _ _ (started_SInv p l) Hd Hr1) as [Hb1 HI].
+  apply pw_run_steps in Hr1. subst w1.
+  rewrite py_trace_shape in *. unfold wf_file, lead_magic. rewrite Hskip.
+  eexists. split; [reflexivity|].
+  apply Forall_app in Hsz. destruct Hsz as [_ Hsz]. apply Forall_app in Hsz. destruct Hsz as [Hsz _].
+  apply built_wf_all; try assumption.
+  constructor; [cbn; repeat split; discriminate|]. apply Forall_app. split; [exact Hb1|].
+  eapply finish_built. exact HI.
+Qed.
+
+(* ... hence the Go lexer model reads the written bytes as the events of the trace, then EOF *)
+Theorem py_write_lex p l cs b sk :
+  lo_skip_magic lo = false -> lo_emit_chunks lo = false -> mem_bytes [] (lo_custom lo) = false ->
+  lo_cb lo = CbNone \/ lo_cb lo = CbFull ->
+  py_write o (PcStart p l :: cs ++ [PcFinish]) = POk b -> data_calls cs = true ->
+  Forall (item_size_ok lo) (py_trace o (PcStart p l :: cs ++ [PcFinish])) ->
+  forall fuel, (file_steps lo ds (py_trace o (PcStart p l :: cs ++ [PcFinish])) + 1 <= fuel)%nat ->
+  exists st, lex_all lo ds fuel (src_of b sk)
+             = Ok (file_events lo ds (py_trace o (PcStart p l :: cs ++ [PcFinish])), EEOF, st).
+Proof.
+  intros Hskip Hemit Hcustom Hcb Hw Hd Hsz fuel Hfuel.
+  rewrite (py_write_is_trace o p l cs b Hw (data_calls_no_start cs Hd)).
+  apply lex_render_thm; [|exact Hfuel]. eapply py_trace_wf; eassumption.
+Qed.
+
+End Main.
+
+(* ====================================================================== *)
+(** * 3. content of the trace in terms of the calls *)
+
+(* ---------- 3.0 fields the chunk machinery does not touch ---------- *)
+Section Keeps.
+Variable o : pwopts.
+
+Lemma fin_keeps w :
+  pw_atts (pw_finalize_chunk o w) = pw_atts w /\ pw_mds (pw_finalize_chunk o w) = pw_mds w
+  /\ pw_channels (pw_finalize_chunk o w) = pw_channels w /\ pw_schemas (pw_finalize_chunk o w) = pw_schemas w.
+Proof.
+  destruct (pw_cb w) as [cb|] eqn:Hcb.
+  - destruct (cb_num cb =? 0) eqn:Hn.
+    + rewrite (fin_zero o w cb Hcb Hn). repeat split.
+    + rewrite (fin_spec o w cb Hcb Hn). repeat split.
+  - rewrite (fin_none o w Hcb). repeat split.
+Qed.
+
+Lemma maybe_keeps w :
+  pw_atts (pw_maybe_finalize o w) = pw_atts w /\ pw_mds (pw_maybe_finalize o w) = pw_mds w
+  /\ pw_channels (pw_maybe_finalize o w) = pw_channels w /\ pw_schemas (pw_maybe_finalize o w) = pw_schemas w.
+Proof.
+  unfold pw_maybe_finalize. destruct (pw_cb w) as [cb|]; [|repeat split].
+  destruct (po_chunk_size o <? blen (cb_buf cb)); [apply fin_keeps | repeat split].
+Qed.
+
+Definition new_schema (w : pw) (c : pcall) : list schema :=
+  match c with PcSchema n e d => [schema_of w n e d] | _ => [] end.
+Definition new_channel (w : pw) (c : pcall) : list channel :=
+  match c with PcChannel t me sid m => [channel_of w t me sid m] | _ => [] end.
+
+Lemma step_schemas w c : pw_schemas (pw_step o w c) = pw_schemas w ++ new_schema w c.
+Proof.
+  destruct c as [p l|n e d|t me sid m|ch lg d pb sq|cr lg n me d|n m|]; cbn [pw_step new_schema]; rewrite ?app_nil_r.
+  - reflexivity.
+  - unfold pw_data_record. cbn [pw_cb]. destruct (pw_cb w); [|reflexivity].
+    destruct (maybe_keeps (pw_set_cb
+      {| pw_out := pw_out w; pw_rb := pw_rb w; pw_atts := pw_atts w; pw_mds := pw_mds w; pw_channels := pw_channels w;
+         pw_schemas := pw_schemas w ++ [schema_of w n e d]; pw_cb := Some p; pw_chunks := pw_chunks w;
+         pw_stats := {| st_messages := st_messages (pw_stats w); st_schemas := st_schemas (pw_stats w) + 1;
+                        st_channels := st_channels (pw_stats w); st_attachments := st_attachments (pw_stats w);
+                        st_metadata := st_metadata (pw_stats w); st_chunks := st_chunks (pw_stats w);
+                        st_start := st_start (pw_stats w); st_end := st_end (pw_stats w); st_counts := st_counts (pw_stats w) |};
+         pw_crc := pw_crc w |} (Some (cb_add_record p OpSchema (enc_schema (schema_of w n e d)))))) as (_ & _ & _ & H).
+    exact H.
+  - unfold pw_data_record. cbn [pw_cb]. destruct (pw_cb w); [|reflexivity].
+    match goal with |- pw_schemas (pw_maybe_finalize o ?x) = _ => destruct (maybe_keeps x) as (_ & _ & _ & H) end.
+    exact H.
+  - cbn [pw_set_stats pw_cb]. destruct (pw_cb w); [|reflexivity].
+    match goal with |- pw_schemas (pw_maybe_finalize o ?x) = _ => destruct (maybe_keeps x) as (_ & _ & _ & H) end.
+    exact H.
+  - reflexivity.
+  - reflexivity.
+  - rewrite finish_spec. unfold finish_state, pre_summary. cbn [pw_raw pw_flush pw_set_rb pw_schemas].
+    apply fin_keeps.
+Qed.
+
+Lemma step_channels w c : pw_channels (pw_step o w c) = pw_channels w ++ new_channel w c.
+Proof.
+  destruct c as [p l|n e d|t me sid m|ch lg d pb sq|cr lg n me d|n m|]; cbn [pw_step new_channel]; rewrite ?app_nil_r.
+  - reflexivity.
+  - unfold pw_data_record. cbn [pw_cb]. destruct (pw_cb w); [|reflexivity].
+    match goal with |- pw_channels (pw_maybe_finalize o ?x) = _ => destruct (maybe_keeps x) as (_ & _ & H & _) end.
+    exact H.
+  - unfold pw_data_record. cbn [pw_cb]. destruct (pw_cb w); [|reflexivity].
+    match goal with |- pw_channels (pw_maybe_finalize o ?x) = _ => destruct (maybe_keeps x) as (_ & _ & H & _) end.
+    exact H.
+  - cbn [pw_set_stats pw_cb]. destruct (pw_cb w); [|reflexivity].
+    match goal with |- pw_channels (pw_maybe_finalize o ?x) = _ => destruct (maybe_keeps x) as (_ & _ & H & _) end.
+    exact H.
+  - reflexivity.
+  - reflexivity.
+  - rewrite finish_spec. unfold finish_state, pre_summary. cbn [pw_raw pw_flush pw_set_rb pw_channels].
+    apply fin_keeps.
+Qed.
+
+End Keeps.
+
+(* ---------- 3.1 logical records per class ---------- *)
+(* the logical record a call asks for; ns, nc = number of schemas / channels registered before it *)
+Definition call_recs (ns nc : nat) (c : pcall) : list crec :=
+  match c with
+  | PcStart p l => []
+  | PcSchema n e d =>
+    [CR OpSchema (enc_schema {| s_id := N.of_nat ns + 1; s_name := n; s_encoding := e; s_data := d |})]
+  | PcChannel t me sid m =>
+    [CR OpChannel (py_enc_channel {| c_id := N.of_nat nc + 1; c_schema := sid; c_topic := t; c_menc := me; c_meta := m |})]
+  | PcMessage ch lg d pb sq => [CR OpMessage (enc_message (msg_of ch lg d pb sq))]
+  | PcAttachment cr lg n me d =>
+    [CA (att_of cr lg n me d) d (crc32 (enc_attachment_fields (att_of cr lg n me d) ++ d))]
+  | PcMetadata n m => [CR OpMetadata (py_enc_metadata {| md_name := n; md_meta := m |})]
+  | PcFinish => []
+  end.
+Definition ns_after (ns : nat) (c : pcall) : nat := match c with PcSchema _ _ _ => S ns | _ => ns end.
+Definition nc_after (nc : nat) (c : pcall) : nat := match c with PcChannel _ _ _ _ => S nc | _ => nc end.
+Fixpoint calls_recs (ns nc : nat) (cs : list pcall) : list crec :=
+  match cs with
+  | [] => []
+  | c :: r => call_recs ns nc c ++ calls_recs (ns_after ns c) (nc_after nc c) r
+  end.
+
+Lemma calls_recs_app ns nc a : forall b,
+  calls_recs ns nc (a ++ b)
+  = calls_recs ns nc a ++ calls_recs (fold_left ns_after a ns) (fold_left nc_after a nc) b.
+Proof.
+  revert ns nc. induction a as [|c a IH]; intros ns nc b; [reflexivity|].
+  cbn [app calls_recs fold_left]. rewrite IH, app_assoc. reflexivity.
+Qed.
+
+(* record classes the theorems are about *)
+Definition P_nomi (P : crec -> bool) : Prop := forall b, P (CR OpMessageIndex b) = false.
+Definition P_direct (P : crec -> bool) : Prop :=
+  forall op b, op = OpSchema \/ op = OpChannel \/ op = OpMessage -> P (CR op b) = false.
+Definition P_auto (P : crec -> bool) : Prop :=
+  (forall a d c, P (CA a d c) = false) /\ forall b, P (CR OpMetadata b) = false.
+Definition P_good (P : crec -> bool) : Prop := P_nomi P /\ (P_direct P \/ P_auto P).
+
+Definition chunk_small (it : item) : Prop :=
+  match it with IChunk k => blen (k_records k) < two64 | _ => True end.
+
+Lemma filter_inner_direct P inner : P_direct P -> Forall auto_rec inner -> filter P (map cr_of inner) = [].
+Proof.
+  intros HP. induction 1 as [|r inner Hr _ IH]; [reflexivity|]. cbn [map filter]. unfold cr_of at 1.
+  rewrite (HP _ _ Hr). exact IH.
+Qed.
+
+Lemma all_records_app unz a b : all_records unz (a ++ b) = all_records unz a ++ all_records unz b.
+Proof. unfold all_records. apply flat_map_app'. Qed.
+Lemma all_records_cons unz it l : all_records unz (it :: l) = item_records unz it ++ all_records unz l.
+Proof. reflexivity. Qed.
+
+Section Content.
+Variable o : pwopts.
+Variable unz : bytes -> bytes -> bytes.
+Hypothesis Hunz : forall stored, unz [] stored = stored.
+
+Lemma chunk_item_records cb inner :
+  cb_buf cb = frames inner -> blen (cb_buf cb) < two64 ->
+  item_records unz (IChunk (chunk_of o cb)) = map cr_of inner.
+Proof.
+  intros Hb Hs. cbn [item_records]. unfold chunk_recs. cbn [chunk_of k_comp k_records]. rewrite Hunz, Hb.
+  rewrite split_records_frames; [reflexivity| |lia].
+  eapply Forall_impl; [|apply frames_body_le]. cbv beta. intros r Hr. rewrite <- Hb in Hr. lia.
+Qed.
+
+Lemma mi_records P cb : P_nomi P -> filter P (all_records unz (mi_items o cb)) = [].
+Proof.
+  intro HP. unfold mi_items. destruct (po_idx_msg o); [|reflexivity].
+  induction (cb_indices cb) as [|p l IH]; [reflexivity|]. cbn [map]. rewrite all_records_cons.
+  cbn [mi_item item_records app filter]. rewrite HP. exact IH.
+Qed.
+
+Lemma fin_content P cb inner :
+  cb_buf cb = frames inner -> Forall chunk_small (fin_items o (Some cb)) -> P_nomi P ->
+  filter P (all_records unz (fin_items o (Some cb))) ++ filter P (map cr_of (after_fin cb inner))
+  = filter P (map cr_of inner).
+Proof.
+  intros Hb Hs HP. cbn [fin_items] in *. unfold after_fin. destruct (cb_num cb =? 0); [reflexivity|].
+  inversion Hs as [|x y Hk _]; subst x y. cbn [chunk_small chunk_of k_records] in Hk.
+  rewrite all_records_cons, filter_app, (chunk_item_records cb inner Hb Hk), (mi_records P cb HP).
+  cbn [map filter]. rewrite !app_nil_r. reflexivity.
+Qed.
+
+Lemma maybe_content P cb inner :
+  cb_buf cb = frames inner -> Forall chunk_small (maybe_items o (Some cb)) -> P_nomi P ->
+  filter P (all_records unz (maybe_items o (Some cb))) ++ filter P (map cr_of (after_maybe o cb inner))
+  = filter P (map cr_of inner).
+Proof.
+  intros Hb Hs HP. unfold maybe_items, after_maybe in *. destruct (po_chunk_size o <? blen (cb_buf cb)).
+  - apply fin_content; assumption.
+  - reflexivity.
+Qed.
+
+Lemma filter_snoc_rec P inner op body :
+  filter P (map cr_of (inner ++ [(op, body)])) = filter P (map cr_of inner) ++ filter P [CR op body].
+Proof. rewrite map_app, filter_app. reflexivity. Qed.
+
+Lemma direct_content P w inner (r : crec) :
+  SInv w inner -> P_good P ->
+  (P_direct P \/ P r = false) ->
+  filter P [r] ++ filter P (map cr_of inner) = filter P (map cr_of inner) ++ filter P [r].
+Proof.
+  intros HI (_ & HP) Hr. destruct Hr as [Hd | Hr].
+  - assert (H : filter P (map cr_of inner) = []).
+    { unfold SInv in HI. destruct (pw_cb w); [|subst inner; reflexivity].
+      apply filter_inner_direct; [exact Hd | apply HI]. }
+    rewrite H, app_nil_r. reflexivity.
+  - cbn [filter]. rewrite Hr, app_nil_r. reflexivity.
+Qed.
+
+Lemma step_content P w inner c :
+  SInv w inner -> is_start c = false -> is_finish c = false ->
+  Forall chunk_small (pt_step o w c) -> P_good P ->
+  filter P (all_records unz (pt_step o w c)) ++ filter P (map cr_of (inner_step o w inner c))
+  = filter P (map cr_of inner) ++ filter P (call_recs (length (pw_schemas w)) (length (pw_channels w)) c).
+Proof.
+  intros HI Hs Hf Hsm HP. pose proof HI as HI0. unfold SInv in HI.
+  destruct c as [p l|n e d|t me sid m|ch lg d pb sq|cr lg n me d|n m|]; try discriminate;
+    cbn [pt_step call_recs] in *; unfold inner_step.
+  - unfold data_rec_items in *. destruct (pw_cb w) as [cb|] eqn:Hcb.
+    + rewrite maybe_content; [apply filter_snoc_rec | | exact Hsm | apply HP].
+      cbn [cb_add_record cb_buf]. rewrite frames_snoc. f_equal. apply HI.
+    + subst inner. cbn [map filter app]. rewrite app_nil_r. reflexivity.
+  - unfold data_rec_items in *. destruct (pw_cb w) as [cb|] eqn:Hcb.
+    + rewrite maybe_content; [apply filter_snoc_rec | | exact Hsm | apply HP].
+      cbn [cb_add_record cb_buf]. rewrite frames_snoc. f_equal. apply HI.
+    + subst inner. cbn [map filter app]. rewrite app_nil_r. reflexivity.
+  - destruct (pw_cb w) as [cb|] eqn:Hcb.
+    + rewrite maybe_content; [apply filter_snoc_rec | | exact Hsm | apply HP].
+      cbn [cb_add_message cb_buf]. rewrite frames_snoc. f_equal. apply HI.
+    + subst inner. cbn [map filter app]. rewrite app_nil_r. reflexivity.
+  - assert (E : (match pw_cb w with Some _ => inner | None => inner end) = inner) by (destruct (pw_cb w); reflexivity).
+    rewrite E. cbn [all_records flat_map item_records]. rewrite app_nil_r.
+    apply (direct_content P w inner _ HI0 HP). destruct HP as (_ & [Hd | (Ha & _)]); [left; exact Hd | right; apply Ha].
+  - assert (E : (match pw_cb w with Some _ => inner | None => inner end) = inner) by (destruct (pw_cb w); reflexivity).
+    rewrite E. cbn [all_records flat_map item_records]. rewrite app_nil_r.
+    apply (direct_content P w inner _ HI0 HP). destruct HP as (_ & [Hd | (_ & Ha)]); [left; exact Hd | right; apply Ha].
+Qed.
+
+Lemma data_content P cs : forall w inner w',
+  SInv w inner -> data_calls cs = true -> pw_run o w cs = POk w' ->
+  Forall chunk_small (trace_from o w cs) -> P_good P ->
+  filter P (all_records unz (trace_from o w cs)) ++ filter P (map cr_of (inner_steps o w inner cs))
+  = filter P (map cr_of inner) ++ filter P (calls_recs (length (pw_schemas w)) (length (pw_channels w)) cs).
+Proof.
+  induction cs as [|c cs IH]; intros w inner w' HI Hd Hr Hsm HP.
+  - cbn [trace_from inner_steps calls_recs all_records flat_map filter]. rewrite app_nil_r. reflexivity.
+  - cbn [data_calls forallb] in Hd. apply andb_true_iff in Hd. destruct Hd as [Hc Hd].
+    apply andb_true_iff in Hc. destruct Hc as [Hs Hf]. apply negb_true_iff in Hs. apply negb_true_iff in Hf.
+    cbn [pw_run] in Hr. destruct (pcall_ok w c) eqn:Hok; [|discriminate].
+    destruct (step_built o w inner c HI Hok Hs Hf) as [_ HI'].
+    cbn [trace_from] in Hsm. apply Forall_app in Hsm. destruct Hsm as [Hsm1 Hsm2].
+    cbn [trace_from inner_steps calls_recs]. rewrite all_records_app, !filter_app, <- app_assoc.
+    rewrite (IH _ _ _ HI' Hd Hr Hsm2 HP), app_assoc, (step_content P w inner c HI Hs Hf Hsm1 HP), <- app_assoc.
+    rewrite step_schemas, step_channels, !app_length.
+    replace (length (pw_schemas w) + length (new_schema w c))%nat with (ns_after (length (pw_schemas w)) c)
+      by (destruct c; cbn [ns_after new_schema length]; lia).
+    replace (length (pw_channels w) + length (new_channel w c))%nat with (nc_after (length (pw_channels w)) c)
+      by (destruct c; cbn [nc_after new_channel length]; lia).
+    reflexivity.
+Qed.
+
+End Content.
+
+(* ---------- 3.2 what the calls ask for, per class ---------- *)
+Definition msgs_of (cs : list pcall) : list message :=
+  flat_map (fun c => match c with PcMessage ch lg d pb sq => [msg_of ch lg d pb sq] | _ => [] end) cs.
+Definition atts_of (cs : list pcall) : list (attachment * bytes) :=
+  flat_map (fun c => match c with PcAttachment cr lg n me d => [(att_of cr lg n me d, d)] | _ => [] end) cs.
+Definition mds_of (cs : list pcall) : list metadata :=
+  flat_map (fun c => match c with PcMetadata n m => [{| md_name := n; md_meta := m |}] | _ => [] end) cs.
+(* schemas and channels get the ids 1, 2, 3, ... in registration order *)
+Fixpoint reg_schemas (ns : nat) (cs : list pcall) : list schema :=
+  match cs with
+  | [] => []
+  | PcSchema n e d :: r => {| s_id := N.of_nat ns + 1; s_name := n; s_encoding := e; s_data := d |} :: reg_schemas (S ns) r
+  | _ :: r => reg_schemas ns r
+  end.
+Fixpoint reg_channels (nc : nat) (cs : list pcall) : list channel :=
+  match cs with
+  | [] => []
+  | PcChannel t me sid m :: r =>
+    {| c_id := N.of_nat nc + 1; c_schema := sid; c_topic := t; c_menc := me; c_meta := m |} :: reg_channels (S nc) r
+  | _ :: r => reg_channels nc r
+  end.
+
+Definition att_crec (x : attachment * bytes) : crec :=
+  CA (fst x) (snd x) (crc32 (enc_attachment_fields (fst x) ++ snd x)).
+
+Lemma calls_recs_msgs cs : forall ns nc,
+  filter (is_op OpMessage) (calls_recs ns nc cs) = map (fun m => CR OpMessage (enc_message m)) (msgs_of cs).
+Proof.
+  induction cs as [|c cs IH]; intros ns nc; [reflexivity|]. cbn [calls_recs]. rewrite filter_app, IH.
+  unfold msgs_of. cbn [flat_map]. rewrite map_app. f_equal. destruct c; reflexivity.
+Qed.
+Lemma calls_recs_atts cs : forall ns nc,
+  filter ComposeFacts.is_att (calls_recs ns nc cs) = map att_crec (atts_of cs).
+Proof.
+  induction cs as [|c cs IH]; intros ns nc; [reflexivity|]. cbn [calls_recs]. rewrite filter_app, IH.
+  unfold atts_of. cbn [flat_map]. rewrite map_app. f_equal. destruct c; reflexivity.
+Qed.
+Lemma calls_recs_mds cs : forall ns nc,
+  filter (is_op OpMetadata) (calls_recs ns nc cs) = map (fun m => CR OpMetadata (py_enc_metadata m)) (mds_of cs).
+Proof.
+  induction cs as [|c cs IH]; intros ns nc; [reflexivity|]. cbn [calls_recs]. rewrite filter_app, IH.
+  unfold mds_of. cbn [flat_map]. rewrite map_app. f_equal. destruct c; reflexivity.
+Qed.
+Lemma calls_recs_schemas cs : forall ns nc,
+  filter (is_op OpSchema) (calls_recs ns nc cs) = map (fun s => CR OpSchema (enc_schema s)) (reg_schemas ns cs).
+Proof.
+  induction cs as [|c cs IH]; intros ns nc; [reflexivity|]. cbn [calls_recs]. rewrite filter_app, IH.
+  destruct c; reflexivity.
+Qed.
+Lemma calls_recs_channels cs : forall ns nc,
+  filter (is_op OpChannel) (calls_recs ns nc cs) = map (fun c => CR OpChannel (py_enc_channel c)) (reg_channels nc cs).
+Proof.
+  induction cs as [|c cs IH]; intros ns nc; [reflexivity|]. cbn [calls_recs]. rewrite filter_app, IH.
+  destruct c; reflexivity.
+Qed.
+
+Lemma good_msg : P_good (is_op OpMessage).
+Proof. split; [intro b; reflexivity|]. right. split; intros; reflexivity. Qed.
+Lemma good_schema : P_good (is_op OpSchema).
+Proof. split; [intro b; reflexivity|]. right. split; intros; reflexivity. Qed.
+Lemma good_channel : P_good (is_op OpChannel).
+Proof. split; [intro b; reflexivity|]. right. split; intros; reflexivity. Qed.
+Lemma good_att : P_good ComposeFacts.is_att.
+Proof. split; [intro b; reflexivity|]. left. intros op b _. reflexivity. Qed.
+Lemma good_md : P_good (is_op OpMetadata).
+Proof. split; [intro b; reflexivity|]. left. intros op b [-> | [-> | ->]]; reflexivity. Qed.
+
+Lemma nochunk_cb o cs : forall w, pw_cb w = None -> pw_cb (pw_steps o w cs) = None.
+Proof.
+  induction cs as [|c cs IH]; intros w Hn; [exact Hn|].
+  unfold pw_steps. cbn [fold_left]. apply IH.
+  destruct c; cbn [pw_step]; unfold pw_data_record; cbn [pw_cb pw_set_stats pw_flush pw_set_rb pw_raw];
+    rewrite ?Hn; cbn [pw_cb pw_set_stats pw_flush pw_set_rb pw_raw]; try exact Hn; try reflexivity.
+  rewrite finish_spec. unfold finish_state, pre_summary. cbn [pw_raw pw_flush pw_set_rb pw_cb].
+  rewrite (fin_none o w Hn). exact Hn.
+Qed.
+
+(* ---------- 3.3 the data section of a complete session ---------- *)
+Section Session.
+Variable o : pwopts.
+Variables p l : bytes.
+Variable cs : list pcall.
+
+Definition final_state : pw := pw_steps o (started o p l) cs.          (* when finish() is called *)
+Definition final_inner : list (byte * bytes) := inner_steps o (started o p l) [] cs.
+
+(* magic and header, what the data calls wrote, the last chunk *)
+Definition data_items : list item :=
+  header_item p l :: trace_from o (started o p l) cs ++ fin_items o (pw_cb final_state).
+(* DataEnd, summary section, footer *)
+Definition tail_items : list item :=
+  let w1 := pw_finalize_chunk o final_state in
+  [dataend_item w1] ++ summary_of o w1 ++ [IFooter (footer_ss o w1) (footer_sos o w1) (footer_crc o w1)].
+
+Theorem py_trace_sections :
+  py_trace o (PcStart p l :: cs ++ [PcFinish]) = [IMagic] ++ data_items ++ tail_items ++ [IMagic].
+Proof.
+  rewrite py_trace_shape. unfold data_items, tail_items, finish_recs. fold final_state. cbv zeta.
+  cbn [app]. repeat (rewrite <- app_assoc || rewrite <- app_comm_cons). reflexivity.
+Qed.
+
+(* the schema / channel records still in the chunk builder at finish() when it holds no message:
+   these are never written *)
+Definition dropped : list (byte * bytes) :=
+  match pw_cb final_state with
+  | Some cb => if cb_num cb =? 0 then final_inner else []
+  | None => []
+  end.
+
+Variable unz : bytes -> bytes -> bytes.
+Hypothesis Hunz : forall stored, unz [] stored = stored.
+
+Variable b : bytes.
+Hypothesis Hw : py_write o (PcStart p l :: cs ++ [PcFinish]) = POk b.
+Hypothesis Hd : data_calls cs = true.
+Hypothesis Hsmall : Forall chunk_small (py_trace o (PcStart p l :: cs ++ [PcFinish])).
+
+Lemma session_run : pw_run o (started o p l) cs = POk final_state.
+Proof.
+  destruct (py_write_run _ _ _ Hw) as (w' & Hr & _).
+  cbn [pw_run] in Hr. destruct (pcall_ok (pw_init o) (PcStart p l)); [|discriminate]. fold (started o p l) in Hr.
+  apply pw_run_app in Hr. destruct Hr as (w1 & Hr1 & _). pose proof (pw_run_steps o cs _ _ Hr1) as E.
+  unfold final_state. rewrite <- E. exact Hr1.
+Qed.
+
+Lemma session_SInv : SInv final_state final_inner.
+Proof. exact (proj2 (data_built o cs _ _ _ (started_SInv o p l) Hd session_run)). Qed.
+
+Lemma session_small : Forall chunk_small (trace_from o (started o p l) cs) /\ Forall chunk_small (fin_items o (pw_cb final_state)).
+Proof.
+  rewrite py_trace_sections in Hsmall. apply Forall_app in Hsmall. destruct Hsmall as [_ H].
+  apply Forall_app in H. destruct H as [H _]. unfold data_items in H. inversion H as [|x y _ H']; subst x y.
+  apply Forall_app in H'. exact H'.
+Qed.
+
+(* per class: the records of the data section, plus the dropped ones, are what the calls asked for *)
+Theorem py_data_content P :
+  P_good P -> (forall x, P (CR OpHeader x) = false) ->
+  filter P (all_records unz data_items) ++ filter P (map cr_of dropped) = filter P (calls_recs 0 0 cs).
+Proof.
+  intros HP Hh. destruct session_small as [Hs1 Hs2].
+  pose proof (data_content o unz Hunz P cs _ [] _ (started_SInv o p l) Hd session_run Hs1 HP) as H.
+  cbn [map filter app] in H. change (length (pw_schemas (started o p l))) with 0%nat in H.
+  change (length (pw_channels (started o p l))) with 0%nat in H. fold final_inner in H.
+  rewrite <- H. unfold data_items. rewrite all_records_cons, all_records_app. cbn [header_item item_records app filter].
+  rewrite Hh, filter_app, <- app_assoc. f_equal.
+  pose proof session_SInv as HI. unfold SInv in HI. unfold dropped.
+  destruct (pw_cb final_state) as [cb|] eqn:Hcb.
+  - pose proof (fin_content o unz Hunz P cb final_inner (proj1 HI) Hs2 (proj1 HP)) as Hf.
+    unfold after_fin in Hf. destruct (cb_num cb =? 0).
+    + exact Hf.
+    + cbn [map filter] in *. rewrite app_nil_r in *. exact Hf.
+  - rewrite HI. reflexivity.
+Qed.
+
+Lemma dropped_auto : Forall auto_rec dropped.
+Proof.
+  pose proof session_SInv as HI. unfold SInv in HI. unfold dropped.
+  destruct (pw_cb final_state) as [cb|]; [|constructor]. destruct (cb_num cb =? 0); [apply HI | constructor].
+Qed.
+
+Lemma dropped_no_msg : filter is_msg_rec dropped = [].
+Proof.
+  pose proof session_SInv as HI. unfold SInv in HI. unfold dropped.
+  destruct (pw_cb final_state) as [cb|]; [|reflexivity]. destruct (cb_num cb =? 0) eqn:Hn; [|reflexivity].
+  destruct HI as (_ & _ & _ & _ & Hc). apply N.eqb_eq in Hn. rewrite Hn in Hc.
+  clear Hunz Hsmall. clear unz. destruct (filter is_msg_rec final_inner); [reflexivity | cbn [length] in Hc; lia].
+Qed.
+
+Lemma filter_msg_cr inner : filter (is_op OpMessage) (map cr_of inner) = map cr_of (filter is_msg_rec inner).
+Proof.
+  induction inner as [|r inner IH]; [reflexivity|]. cbn [map filter]. unfold cr_of at 1. cbn [is_op].
+  unfold is_msg_rec at 1. destruct (Byte.eqb (fst r) OpMessage); cbn [map]; rewrite IH; reflexivity.
+Qed.
+
+(* 3(c): the message records of the data section - inside chunks when chunking, at top level
+   otherwise - are exactly the messages written, in order *)
+Theorem py_data_messages :
+  filter (is_op OpMessage) (all_records unz data_items) = map (fun m => CR OpMessage (enc_message m)) (msgs_of cs).
+Proof.
+  rewrite <- (calls_recs_msgs cs 0 0), <- (py_data_content _ good_msg) by reflexivity.
+  rewrite filter_msg_cr, dropped_no_msg. cbn [map]. rewrite app_nil_r. reflexivity.
+Qed.
+
+(* 3(a) *)
+Theorem py_data_attachments :
+  filter ComposeFacts.is_att (all_records unz data_items) = map att_crec (atts_of cs).
+Proof.
+  rewrite <- (calls_recs_atts cs 0 0), <- (py_data_content _ good_att) by reflexivity.
+  rewrite filter_inner_direct; [rewrite app_nil_r; reflexivity | intros op x _; reflexivity | apply dropped_auto].
+Qed.
+
+(* 3(b) *)
+Theorem py_data_metadata :
+  filter (is_op OpMetadata) (all_records unz data_items)
+  = map (fun m => CR OpMetadata (py_enc_metadata m)) (mds_of cs).
+Proof.
+  rewrite <- (calls_recs_mds cs 0 0), <- (py_data_content _ good_md) by reflexivity.
+  rewrite filter_inner_direct; [rewrite app_nil_r; reflexivity | | apply dropped_auto].
+  intros op x [-> | [-> | ->]]; reflexivity.
+Qed.
+
+(* 3(d): schema and channel records of the data section: all registered ones except the dropped *)
+Theorem py_data_schemas :
+  filter (is_op OpSchema) (all_records unz data_items) ++ filter (is_op OpSchema) (map cr_of dropped)
+  = map (fun s => CR OpSchema (enc_schema s)) (reg_schemas 0 cs).
+Proof. rewrite <- (calls_recs_schemas cs 0 0). apply py_data_content; [apply good_schema | reflexivity]. Qed.
+
+Theorem py_data_channels :
+  filter (is_op OpChannel) (all_records unz data_items) ++ filter (is_op OpChannel) (map cr_of dropped)
+  = map (fun c => CR OpChannel (py_enc_channel c)) (reg_channels 0 cs).
+Proof. rewrite <- (calls_recs_channels cs 0 0). apply py_data_content; [apply good_channel | reflexivity]. Qed.
+
+Lemma dropped_nochunking : po_chunking o = false -> dropped = [].
+Proof.
+  intro Hc. unfold dropped.
+  assert (H0 : pw_cb (started o p l) = None).
+  { unfold started. cbn [pw_step pw_flush pw_set_rb pw_raw pw_cb pw_init]. rewrite Hc. reflexivity. }
+  pose proof (nochunk_cb o cs _ H0) as H. fold final_state in H. rewrite H. reflexivity.
+Qed.
+
+End Session.
+
+(* ---------- 3.4 the whole file, and what the Go lexer reports ---------- *)
+Lemma all_records_map_rec {A} unz op (f : A -> bytes) l :
+  all_records unz (map (fun x => IRec op (f x)) l) = map (fun x => CR op (f x)) l.
+Proof. induction l as [|x l IH]; [reflexivity|]. cbn [map]. rewrite all_records_cons, IH. reflexivity. Qed.
+
+Lemma filter_map_rec_none {A} (P : crec -> bool) op (f : A -> bytes) l :
+  (forall b, P (CR op b) = false) -> filter P (map (fun x => CR op (f x)) l) = [].
+Proof. intro H. induction l as [|x l IH]; [reflexivity|]. cbn [map filter]. rewrite H. exact IH. Qed.
+
+(* classes that occur in the data section only *)
+Definition P_payload (P : crec -> bool) : Prop :=
+  forall op b, In op [OpHeader; OpDataEnd; OpSchema; OpChannel; OpStatistics; OpChunkIndex; OpAttachmentIndex;
+                      OpMetadataIndex; OpSummaryOffset; OpFooter] -> P (CR op b) = false.
+
+Lemma filter_if_none {A} (P : A -> bool) (b : bool) l : filter P l = [] -> filter P (if b then l else []) = [].
+Proof. destruct b; [auto | reflexivity]. Qed.
+
+Lemma tail_no_payload o p l cs unz P :
+  P_payload P -> filter P (all_records unz (tail_items o p l cs)) = [].
+Proof.
+  intro HP. unfold tail_items. cbv zeta. set (w1 := pw_finalize_chunk o (final_state o p l cs)).
+  assert (Hrec : forall A op (f : A -> bytes) l0 (b : bool),
+            In op [OpHeader; OpDataEnd; OpSchema; OpChannel; OpStatistics; OpChunkIndex; OpAttachmentIndex;
+                   OpMetadataIndex; OpSummaryOffset; OpFooter] ->
+            filter P (all_records unz (if b then map (fun x => IRec op (f x)) l0 else [])) = []).
+  { intros A op f l0 b Hin. destruct b; [|reflexivity]. rewrite all_records_map_rec. apply filter_map_rec_none.
+    intro x. apply HP, Hin. }
+  rewrite !all_records_app, !filter_app. unfold summary_of, sum_items, so_items.
+  rewrite !all_records_app, !filter_app.
+  rewrite !Hrec by (cbn [In]; tauto).
+  cbn [dataend_item all_records flat_map item_records app filter].
+  rewrite !HP by (cbn [In]; tauto).
+  destruct (po_statistics o); cbn [all_records flat_map item_records app filter]; rewrite ?HP by (cbn [In]; tauto); reflexivity.
+Qed.
+
+Section SessionLex.
+Variable o : pwopts.
+Variables p l : bytes.
+Variable cs : list pcall.
+Variable lo : lopts.
+Variable ds : doracle.
+Hypothesis Hskip : lo_skip_magic lo = false.
+Hypothesis Hemit : lo_emit_chunks lo = false.
+Hypothesis Hcustom : mem_bytes [] (lo_custom lo) = false.
+Variable b : bytes.
+Hypothesis Hw : py_write o (PcStart p l :: cs ++ [PcFinish]) = POk b.
+Hypothesis Hd : data_calls cs = true.
+Hypothesis Hsmall : Forall chunk_small (py_trace o (PcStart p l :: cs ++ [PcFinish])).
+
+Lemma lunz_stored stored : lunz lo ds [] stored = stored.
+Proof. unfold lunz. rewrite (chunk_stream_stored lo ds Hcustom). reflexivity. Qed.
+
+Lemma py_file_class P :
+  P_payload P ->
+  filter P (all_records (lunz lo ds) (py_trace o (PcStart p l :: cs ++ [PcFinish])))
+  = filter P (all_records (lunz lo ds) (data_items o p l cs)).
+Proof.
+  intro HP. rewrite py_trace_sections, !all_records_app, !filter_app, (tail_no_payload o p l cs _ P HP).
+  cbn [all_records flat_map item_records app filter]. rewrite app_nil_r. reflexivity.
+Qed.
+
+Let trace := py_trace o (PcStart p l :: cs ++ [PcFinish]).
+
+(* the message tokens the lexer reports are the messages written, in order *)
+Theorem py_lex_messages :
+  filter (ev_op OpMessage) (file_events lo ds trace) = map (fun m => EvToken OpMessage (enc_message m)) (msgs_of cs).
+Proof.
+  unfold trace. rewrite (file_events_records lo ds _ Hemit).
+  rewrite (filter_events_records lo _ _ _ (compat_op OpMessage eq_refl)).
+  rewrite py_file_class by (intros op x Hin; cbn [In] in Hin; decompose [or] Hin; subst; try reflexivity; contradiction).
+  rewrite (py_data_messages o p l cs (lunz lo ds) lunz_stored b Hw Hd Hsmall).
+  induction (msgs_of cs) as [|m ms IH]; [reflexivity|]. cbn [map flat_map]. rewrite IH. reflexivity.
+Qed.
+
+Theorem py_lex_metadata :
+  filter (ev_op OpMetadata) (file_events lo ds trace) = map (fun m => EvToken OpMetadata (py_enc_metadata m)) (mds_of cs).
+Proof.
+  unfold trace. rewrite (file_events_records lo ds _ Hemit).
+  rewrite (filter_events_records lo _ _ _ (compat_op OpMetadata eq_refl)).
+  rewrite py_file_class by (intros op x Hin; cbn [In] in Hin; decompose [or] Hin; subst; try reflexivity; contradiction).
+  rewrite (py_data_metadata o p l cs (lunz lo ds) lunz_stored b Hw Hd Hsmall).
+  induction (mds_of cs) as [|m ms IH]; [reflexivity|]. cbn [map flat_map]. rewrite IH. reflexivity.
+Qed.
+
+Theorem py_lex_attachments :
+  lo_cb lo = CbFull ->
+  filter ev_att (file_events lo ds trace)
+  = map (fun x => EvAttachment (attach_obs lo (fst x) (snd x) (crc32 (enc_attachment_fields (fst x) ++ snd x)))) (atts_of cs).
+Proof.
+  intro Hcb. unfold trace. rewrite (file_events_records lo ds _ Hemit).
+  rewrite (filter_events_records lo _ _ _ compat_att).
+  rewrite py_file_class by (intros op x Hin; reflexivity).
+  rewrite (py_data_attachments o p l cs (lunz lo ds) lunz_stored b Hw Hd Hsmall).
+  induction (atts_of cs) as [|m ms IH]; [reflexivity|]. cbn [map flat_map att_crec crec_events]. rewrite Hcb, IH. reflexivity.
+Qed.
+
+End SessionLex.
+
+(* ====================================================================== *)
+(** * 3f. index entries designate the rendering position of their items *)
+
+(* a chunk is closed after a record was added: the buffer exceeds the chunk size and holds a message *)
+Definition closes (o : pwopts) (cb : pcb) : bool :=
+  (po_chunk_size o <? blen (cb_buf cb)) && negb (cb_num cb =? 0).
+
+Lemma maybe_spec o w cb :
+  pw_cb w = Some cb -> pw_maybe_finalize o w = if closes o cb then fin_state o w cb else w.
+Proof.
+  intro Hcb. unfold pw_maybe_finalize, closes. rewrite Hcb. destruct (po_chunk_size o <? blen (cb_buf cb)); [|reflexivity].
+  destruct (cb_num cb =? 0) eqn:Hn; cbn [andb negb]; [apply (fin_zero o w cb Hcb Hn) | apply (fin_spec o w cb Hcb Hn)].
+Qed.
+
+Lemma maybe_items_spec o cb :
+  maybe_items o (Some cb) = if closes o cb then IChunk (chunk_of o cb) :: mi_items o cb else [].
+Proof.
+  unfold maybe_items, closes, fin_items. destruct (po_chunk_size o <? blen (cb_buf cb)); [|reflexivity].
+  destruct (cb_num cb =? 0); reflexivity.
+Qed.
+
+Lemma fin_spec' o w :
+  pw_finalize_chunk o w
+  = match pw_cb w with Some cb => if cb_num cb =? 0 then w else fin_state o w cb | None => w end.
+Proof.
+  destruct (pw_cb w) as [cb|] eqn:Hcb; [|apply fin_none, Hcb].
+  destruct (cb_num cb =? 0) eqn:Hn; [apply (fin_zero o w cb Hcb Hn) | apply (fin_spec o w cb Hcb Hn)].
+Qed.
+
+(* offsets of the chunk items / metadata items of an item list whose first item is at offset off *)
+Fixpoint chunk_offsets (off : N) (its : list item) : list N :=
+  match its with
+  | [] => []
+  | it :: r => (match it with IChunk _ => [off] | _ => [] end) ++ chunk_offsets (off + blen (render_item it)) r
+  end.
+Definition is_md_item (it : item) : bool :=
+  match it with IRec op _ => Byte.eqb op OpMetadata | _ => false end.
+Fixpoint md_offsets (off : N) (its : list item) : list N :=
+  match its with
+  | [] => []
+  | it :: r => (if is_md_item it then [off] else []) ++ md_offsets (off + blen (render_item it)) r
+  end.
+(* the attachment index entries of an item list *)
+Fixpoint att_entries (off : N) (its : list item) : list attindex :=
+  match its with
+  | [] => []
+  | it :: r =>
+    (match it with
+     | IAttach a d crc => [{| ai_offset := off; ai_length := blen (render_item it); ai_log := a_log a;
+                              ai_create := a_create a; ai_size := blen d; ai_name := a_name a; ai_media := a_media a |}]
+     | _ => []
+     end) ++ att_entries (off + blen (render_item it)) r
+  end.
+
+Lemma chunk_offsets_app a : forall off b,
+  chunk_offsets off (a ++ b) = chunk_offsets off a ++ chunk_offsets (off + blen (render a)) b.
+Proof.
+  induction a as [|it a IH]; intros off b.
+  - cbn [app chunk_offsets]. rewrite render_nil, pyw_blen_nil, N.add_0_r. reflexivity.
+  - cbn [app chunk_offsets]. rewrite IH, render_cons, blen_app, N.add_assoc, app_assoc. reflexivity.
+Qed.
+Lemma md_offsets_app a : forall off b,
+  md_offsets off (a ++ b) = md_offsets off a ++ md_offsets (off + blen (render a)) b.
+Proof.
+  induction a as [|it a IH]; intros off b.
+  - cbn [app md_offsets]. rewrite render_nil, pyw_blen_nil, N.add_0_r. reflexivity.
+  - cbn [app md_offsets]. rewrite IH, render_cons, blen_app, N.add_assoc, app_assoc. reflexivity.
+Qed.
+Lemma att_entries_app a : forall off b,
+  att_entries off (a ++ b) = att_entries off a ++ att_entries (off + blen (render a)) b.
+Proof.
+  induction a as [|it a IH]; intros off b.
+  - cbn [app att_entries]. rewrite render_nil, pyw_blen_nil, N.add_0_r. reflexivity.
+  - cbn [app att_entries]. rewrite IH, render_cons, blen_app, N.add_assoc, app_assoc. reflexivity.
+Qed.
+
+Section Loc.
+Variable o : pwopts.
+
+(* ci is the index entry of a chunk of its: same fields, offset = length of the rendering of the items
+   before it, the message index records follow it immediately *)
+Definition chunk_located (its : list item) (ci : chunkindex) : Prop :=
+  exists pre cb post,
+    its = pre ++ IChunk (chunk_of o cb) :: mi_items o cb ++ post /\ ci = ci_of o (blen (render pre)) cb.
+Definition md_located (its : list item) (mx : mdindex) : Prop :=
+  exists pre m post,
+    its = pre ++ IRec OpMetadata (py_enc_metadata m) :: post
+    /\ mx = {| mx_offset := blen (render pre); mx_length := blen (render_item (IRec OpMetadata (py_enc_metadata m)));
+               mx_name := md_name m |}.
+
+Lemma chunk_located_app its d ci : chunk_located its ci -> chunk_located (its ++ d) ci.
+Proof.
+  intros (pre & cb & post & -> & ->). exists pre, cb, (post ++ d). split; [|reflexivity].
+  rewrite <- app_assoc. cbn [app]. rewrite <- app_assoc. reflexivity.
+Qed.
+Lemma md_located_app its d mx : md_located its mx -> md_located (its ++ d) mx.
+Proof.
+  intros (pre & m & post & -> & ->). exists pre, m, (post ++ d). split; [|reflexivity].
+  rewrite <- app_assoc. reflexivity.
+Qed.
+
+Definition Loc (w : pw) (its : list item) : Prop :=
+  obytes w = render its
+  /\ Forall (chunk_located its) (pw_chunks w)
+  /\ map ci_offset (pw_chunks w) = chunk_offsets 0 its
+  /\ pw_atts w = (if po_idx_att o then att_entries 0 its else [])
+  /\ Forall (md_located its) (pw_mds w)
+  /\ map mx_offset (pw_mds w) = (if po_idx_md o then md_offsets 0 its else []).
+
+Lemma mi_items_no_chunk cb off : chunk_offsets off (mi_items o cb) = [] /\ md_offsets off (mi_items o cb) = []
+  /\ att_entries off (mi_items o cb) = [].
+Proof.
+  unfold mi_items. destruct (po_idx_msg o); [|repeat split]. revert off.
+  induction (cb_indices cb) as [|p l IH]; intro off; [repeat split|].
+  cbn [map chunk_offsets md_offsets att_entries mi_item app]. change (is_md_item (IRec OpMessageIndex _)) with false. cbv iota.
+  cbn [app]. apply IH.
+Qed.
+
+(* a state that differs from w only in the fields the invariant does not mention *)
+Definition same_loc (w w1 : pw) : Prop :=
+  pw_out w1 = pw_out w /\ pw_rb w1 = pw_rb w /\ pw_chunks w1 = pw_chunks w /\ pw_atts w1 = pw_atts w /\ pw_mds w1 = pw_mds w.
+
+Lemma Loc_same w w1 its : same_loc w w1 -> Loc w its -> Loc w1 its.
+Proof.
+  intros (H1 & H2 & H3 & H4 & H5). unfold Loc, obytes. rewrite H1, H2, H3, H4, H5. auto.
+Qed.
+
+Lemma Loc_fin_state w cb its :
+  Loc w its -> Loc (fin_state o w cb) (its ++ IChunk (chunk_of o cb) :: mi_items o cb).
+Proof.
+  intros (Hb & Hc & Hco & Ha & Hm & Hmo).
+  destruct (mi_items_no_chunk cb (0 + blen (render its) + blen (render_item (IChunk (chunk_of o cb))))) as (E1 & E2 & E3).
+  unfold Loc. cbn [fin_state pw_chunks pw_atts pw_mds]. repeat split.
+  - unfold obytes. cbn [fin_state pw_out pw_rb]. unfold obytes in Hb. rewrite Hb, app_nil_r, render_app, render_cons, <- !app_assoc.
+    reflexivity.
+  - apply Forall_app. split.
+    + eapply Forall_impl; [|exact Hc]. intros ci. apply chunk_located_app.
+    + constructor; [|constructor]. exists its, cb, []. rewrite app_nil_r. split; [reflexivity|].
+      unfold obytes in Hb. rewrite Hb. reflexivity.
+  - rewrite map_app, Hco, chunk_offsets_app. cbn [map chunk_offsets ci_of ci_offset]. rewrite E1.
+    unfold obytes in Hb. rewrite Hb. reflexivity.
+  - rewrite Ha. destruct (po_idx_att o); [|reflexivity]. rewrite att_entries_app. cbn [att_entries]. rewrite E3, !app_nil_r.
+    reflexivity.
+  - eapply Forall_impl; [|exact Hm]. intros mx. apply md_located_app.
+  - rewrite Hmo. destruct (po_idx_md o); [|reflexivity]. rewrite md_offsets_app. cbn [md_offsets is_md_item]. rewrite E2, !app_nil_r.
+    reflexivity.
+Qed.
+
+Lemma Loc_fin w its : Loc w its -> Loc (pw_finalize_chunk o w) (its ++ fin_items o (pw_cb w)).
+Proof.
+  intro H. rewrite fin_spec'. unfold fin_items. destruct (pw_cb w) as [cb|]; [|rewrite app_nil_r; exact H].
+  destruct (cb_num cb =? 0); [rewrite app_nil_r; exact H | apply Loc_fin_state, H].
+Qed.
+
+Lemma Loc_maybe w cb its : pw_cb w = Some cb -> Loc w its -> Loc (pw_maybe_finalize o w) (its ++ maybe_items o (Some cb)).
+Proof.
+  intros Hcb H. rewrite (maybe_spec o w cb Hcb), maybe_items_spec. destruct (closes o cb).
+  - apply Loc_fin_state, H.
+  - rewrite app_nil_r. exact H.
+Qed.
+
+(* appending plain record items that are neither chunks, attachments nor metadata *)
+Lemma Loc_plain w w1 its d :
+  obytes w1 = obytes w ++ render d -> pw_chunks w1 = pw_chunks w -> pw_atts w1 = pw_atts w -> pw_mds w1 = pw_mds w ->
+  (forall off, chunk_offsets off d = [] /\ md_offsets off d = [] /\ att_entries off d = []) ->
+  Loc w its -> Loc w1 (its ++ d).
+Proof.
+  intros Hb H1 H2 H3 Hd (Ib & Hc & Hco & Ha & Hm & Hmo). destruct (Hd (0 + blen (render its))) as (E1 & E2 & E3).
+  unfold Loc. rewrite H1, H2, H3, Hb, Ib, render_app. repeat split.
+  - eapply Forall_impl; [|exact Hc]. intros ci. apply chunk_located_app.
+  - rewrite Hco, chunk_offsets_app, E1, app_nil_r. reflexivity.
+  - rewrite Ha. destruct (po_idx_att o); [|reflexivity]. rewrite att_entries_app, E3, app_nil_r. reflexivity.
+  - eapply Forall_impl; [|exact Hm]. intros mx. apply md_located_app.
+  - rewrite Hmo. destruct (po_idx_md o); [|reflexivity]. rewrite md_offsets_app, E2, app_nil_r. reflexivity.
+Qed.
+
+Lemma step_Loc w its c :
+  is_start c = false -> Loc w its -> Loc (pw_step o w c) (its ++ pt_step o w c).
+Proof.
+  destruct c as [p l|n e d|t me sid m|ch lg d pb sq|cr lg n me d|n m|]; intros Hs HL; [discriminate| | | | | |].
+  - cbn [pw_step pt_step]. unfold pw_data_record, data_rec_items. cbn [pw_cb].
+    destruct (pw_cb w) as [cb|] eqn:Hcb.
+    + apply Loc_maybe; [reflexivity|]. eapply Loc_same; [|exact HL]. repeat split.
+    + eapply Loc_plain; [| | | | |exact HL]; try reflexivity.
+      * unfold obytes. cbn [pw_set_rb pw_out pw_rb]. rewrite render_one, app_assoc. reflexivity.
+      * intro off. repeat split.
+  - cbn [pw_step pt_step]. unfold pw_data_record, data_rec_items. cbn [pw_cb].
+    destruct (pw_cb w) as [cb|] eqn:Hcb.
+    + apply Loc_maybe; [reflexivity|]. eapply Loc_same; [|exact HL]. repeat split.
+    + eapply Loc_plain; [| | | | |exact HL]; try reflexivity.
+      * unfold obytes. cbn [pw_set_rb pw_out pw_rb]. rewrite render_one, app_assoc. reflexivity.
+      * intro off. repeat split.
+  - cbn [pw_step pt_step pw_set_stats pw_cb]. destruct (pw_cb w) as [cb|] eqn:Hcb.
+    + apply Loc_maybe; [reflexivity|]. eapply Loc_same; [|exact HL]. repeat split.
+    + eapply Loc_plain; [| | | | |exact HL]; try reflexivity.
+      * unfold obytes. cbn [pw_flush pw_set_rb pw_out pw_rb]. rewrite render_one, app_nil_r, app_assoc. reflexivity.
+      * intro off. repeat split.
+  - pose proof (step_bytes o w (PcAttachment cr lg n me d) eq_refl) as Hb.
+    destruct HL as (Ib & Hc & Hco & Ha & Hm & Hmo). unfold Loc. rewrite Hb, Ib, render_app.
+    cbn [pw_step pt_step pw_flush pw_chunks pw_atts pw_mds pw_out pw_rb app] in *. repeat split.
+    + eapply Forall_impl; [|exact Hc]. intros ci. apply chunk_located_app.
+    + rewrite Hco, chunk_offsets_app. cbn [chunk_offsets]. rewrite app_nil_r. reflexivity.
+    + rewrite Ha. destruct (po_idx_att o); [|reflexivity]. rewrite att_entries_app. cbn [att_entries app]. f_equal. f_equal.
+      unfold obytes in Ib. rewrite Ib, render_attach. cbn [att_of a_log a_create a_name a_media]. reflexivity.
+    + eapply Forall_impl; [|exact Hm]. intros mx. apply md_located_app.
+    + rewrite Hmo. destruct (po_idx_md o); [|reflexivity]. rewrite md_offsets_app. cbn [md_offsets is_md_item]. rewrite app_nil_r.
+      reflexivity.
+  - pose proof (step_bytes o w (PcMetadata n m) eq_refl) as Hb.
+    destruct HL as (Ib & Hc & Hco & Ha & Hm & Hmo). unfold Loc. rewrite Hb, Ib, render_app.
+    cbn [pw_step pt_step pw_flush pw_chunks pw_atts pw_mds pw_out pw_rb app] in *. repeat split.
+    + eapply Forall_impl; [|exact Hc]. intros ci. apply chunk_located_app.
+    + rewrite Hco, chunk_offsets_app. cbn [chunk_offsets]. rewrite app_nil_r. reflexivity.
+    + rewrite Ha. destruct (po_idx_att o); [|reflexivity]. rewrite att_entries_app. cbn [att_entries]. rewrite app_nil_r.
+      reflexivity.
+    + assert (Hm' : Forall (md_located (its ++ [IRec OpMetadata (py_enc_metadata {| md_name := n; md_meta := m |})])) (pw_mds w))
+        by (eapply Forall_impl; [|exact Hm]; intros mx; apply md_located_app).
+      destruct (po_idx_md o); [|exact Hm']. apply Forall_app. split; [exact Hm'|]. constructor; [|constructor].
+      exists its, {| md_name := n; md_meta := m |}, []. split; [reflexivity|]. unfold obytes in Ib. rewrite Ib. reflexivity.
+    + destruct (po_idx_md o).
+      * rewrite map_app, Hmo, md_offsets_app. cbn [map md_offsets mx_offset]. change (is_md_item (IRec OpMetadata _)) with true.
+        cbv iota. unfold obytes in Ib. rewrite Ib. reflexivity.
+      * exact Hmo.
+  - (* finish *)
+    cbn [pw_step pt_step]. unfold finish_items. cbv zeta. rewrite app_assoc.
+    pose proof (Loc_fin w its HL) as H1. set (w1 := pw_finalize_chunk o w) in *.
+    rewrite finish_spec. fold w1. unfold finish_state, pre_summary.
+    eapply Loc_plain; [| | | | |exact H1]; try reflexivity.
+    + unfold obytes. cbn [pw_raw pw_flush pw_set_rb pw_out pw_rb app].
+      rewrite render_cons, render_app, !render_cons, render_nil, !app_nil_r, <- !app_assoc. reflexivity.
+    + intro off. rewrite chunk_offsets_app, md_offsets_app, att_entries_app. cbn [dataend_item chunk_offsets md_offsets att_entries].
+      change (is_md_item (IRec OpDataEnd _)) with false. cbv iota. cbn [app].
+      rewrite chunk_offsets_app, md_offsets_app, att_entries_app. cbn [chunk_offsets md_offsets att_entries is_md_item]. rewrite !app_nil_r.
+      unfold summary_of, sum_items, so_items.
+      assert (Hrec : forall A op (f : A -> bytes) l0 (b : bool) off0, Byte.eqb op OpMetadata = false ->
+                chunk_offsets off0 (if b then map (fun x => IRec op (f x)) l0 else []) = []
+                /\ md_offsets off0 (if b then map (fun x => IRec op (f x)) l0 else []) = []
+                /\ att_entries off0 (if b then map (fun x => IRec op (f x)) l0 else []) = []).
+      { intros A op f l0 b off0 Hop. destruct b; [|repeat split]. revert off0.
+        induction l0 as [|x l0 IH]; intro off0; [repeat split|].
+        cbn [map chunk_offsets md_offsets att_entries is_md_item]. rewrite Hop. cbn [app]. apply IH. }
+      rewrite !chunk_offsets_app, !md_offsets_app, !att_entries_app.
+      repeat match goal with
+      | |- context [chunk_offsets ?f (if ?b then map (fun x => IRec ?op (@?g x)) ?l0 else [])] =>
+        destruct (Hrec _ op g l0 b f eq_refl) as (-> & _ & _)
+      end.
+      repeat match goal with
+      | |- context [md_offsets ?f (if ?b then map (fun x => IRec ?op (@?g x)) ?l0 else [])] =>
+        destruct (Hrec _ op g l0 b f eq_refl) as (_ & -> & _)
+      end.
+      repeat match goal with
+      | |- context [att_entries ?f (if ?b then map (fun x => IRec ?op (@?g x)) ?l0 else [])] =>
+        destruct (Hrec _ op g l0 b f eq_refl) as (_ & _ & ->)
+      end.
+      destruct (po_statistics o); cbn [chunk_offsets md_offsets att_entries is_md_item app];
+        change (Byte.eqb OpStatistics OpMetadata) with false; cbv iota; repeat split.
+Qed.
+
+Lemma steps_Loc cs : forall w its,
+  no_start cs = true -> Loc w its -> Loc (pw_steps o w cs) (its ++ trace_from o w cs).
+Proof.
+  induction cs as [|c cs IH]; intros w its Hns HL.
+  - cbn [trace_from]. rewrite app_nil_r. exact HL.
+  - cbn [no_start forallb] in Hns. apply andb_true_iff in Hns. destruct Hns as [Hc Hns]. apply negb_true_iff in Hc.
+    unfold pw_steps. cbn [fold_left trace_from]. fold (pw_steps o (pw_step o w c) cs).
+    rewrite app_assoc. apply IH; [exact Hns|]. apply step_Loc; assumption.
+Qed.
+
+Lemma started_Loc p l : Loc (started o p l) [IMagic; header_item p l].
+Proof.
+  unfold Loc, started. split; [rewrite (start_bytes o (pw_init o) p l eq_refl); reflexivity|].
+  cbn [pw_step pw_flush pw_set_rb pw_raw pw_chunks pw_atts pw_mds pw_init map].
+  repeat split; try constructor.
+  - destruct (po_idx_att o); reflexivity.
+  - destruct (po_idx_md o); reflexivity.
+Qed.
+
+End Loc.
+
+(* ---------- message index offsets ---------- *)
+Lemma pn_get_set_same {A} k (v : A) l : pn_get k (pn_set k v l) = Some v.
+Proof.
+  induction l as [|x l IH]; cbn [pn_set pn_get fst snd].
+  - rewrite N.eqb_refl. reflexivity.
+  - destruct (fst x =? k) eqn:E; cbn [pn_get fst snd]; [rewrite N.eqb_refl; reflexivity | rewrite E; exact IH].
+Qed.
+Lemma pn_get_set_other {A} k k' (v : A) l : k <> k' -> pn_get k (pn_set k' v l) = pn_get k l.
+Proof.
+  intro Hne. induction l as [|x l IH]; cbn [pn_set pn_get fst snd].
+  - destruct (N.eqb_spec k' k); [congruence | reflexivity].
+  - destruct (N.eqb_spec (fst x) k') as [E|E]; cbn [pn_get fst snd].
+    + destruct (N.eqb_spec k' k); [congruence|]. destruct (N.eqb_spec (fst x) k); [congruence | reflexivity].
+    + destruct (fst x =? k); [reflexivity | exact IH].
+Qed.
+
+(* an entry of the message index offsets of a chunk index designates the position of the (last)
+   message index record of that channel *)
+Lemma mi_offs_spec l : forall pos acc ch off,
+  pn_get ch (mi_offs pos l acc) = Some off ->
+  (pn_get ch acc = Some off /\ ~ In ch (map fst l))
+  \/ exists l1 es l2, l = l1 ++ (ch, es) :: l2 /\ off = pos + blen (render (map mi_item l1)) /\ ~ In ch (map fst l2).
+Proof.
+  induction l as [|[c es] l IH]; intros pos acc ch off H; cbn [mi_offs fst] in H.
+  - left. split; [exact H | intros []].
+  - apply IH in H. destruct H as [[Hg Hn] | (l1 & es' & l2 & -> & -> & Hn)].
+    + destruct (N.eq_dec ch c) as [->|Hne].
+      * rewrite pn_get_set_same in Hg. injection Hg as <-. right. exists [], es, l. cbn [app map].
+        rewrite render_nil, pyw_blen_nil, N.add_0_r. repeat split. exact Hn.
+      * rewrite pn_get_set_other in Hg by exact Hne. left. split; [exact Hg|]. cbn [map fst In]. intros [E|E]; [congruence | exact (Hn E)].
+    + right. exists ((c, es) :: l1), es', l2. cbn [app map]. rewrite render_cons, blen_app, N.add_assoc. repeat split. exact Hn.
+Qed.
+
+Lemma mi_offs_complete l : forall pos acc ch,
+  In ch (map fst l) -> exists off, pn_get ch (mi_offs pos l acc) = Some off.
+Proof.
+  induction l as [|[c es] l IH]; intros pos acc ch Hin; [destruct Hin|]. cbn [mi_offs fst].
+  destruct (in_dec N.eq_dec ch (map fst l)) as [Hl|Hl]; [apply IH, Hl|].
+  cbn [map fst In] in Hin. destruct Hin as [<- | Hin]; [|contradiction].
+  assert (G : forall l pos acc, ~ In c (map fst l) -> pn_get c (mi_offs pos l acc) = pn_get c acc).
+  { clear. induction l as [|[c' es'] l IH]; intros pos acc Hn; [reflexivity|]. cbn [mi_offs fst].
+    cbn [map fst In] in Hn. rewrite IH by tauto. apply pn_get_set_other. intro E. apply Hn. left. congruence. }
+  rewrite G by exact Hl. rewrite pn_get_set_same. eexists. reflexivity.
+Qed.
+
+(* ---------- positions at finish() ---------- *)
+Section SessionLoc.
+Variable o : pwopts.
+Variables p l : bytes.
+Variable cs : list pcall.
+Hypothesis Hns : no_start cs = true.
+
+Definition before_dataend : list item := [IMagic] ++ data_items o p l cs.
+Definition closed_state : pw := pw_finalize_chunk o (final_state o p l cs).   (* after the last chunk is written *)
+
+(* 3(f): the index lists the summary section is built from (see tail_items / sum_items: chunk
+   index, attachment index and metadata index records are the encodings of pw_chunks, pw_atts,
+   pw_mds of closed_state) describe the items before the DataEnd record by position *)
+Theorem py_index_positions : Loc o closed_state before_dataend.
+Proof.
+  unfold closed_state, before_dataend, data_items, final_state.
+  pose proof (steps_Loc o cs _ _ Hns (started_Loc o p l)) as H. apply Loc_fin in H.
+  rewrite <- app_assoc in H. exact H.
+Qed.
+
+Lemma summary_start_pos :
+  summary_start_of closed_state = blen (render (before_dataend ++ [dataend_item closed_state])).
+Proof.
+  destruct py_index_positions as (Hb & _). unfold summary_start_of. rewrite render_app, render_one, <- Hb.
+  unfold obytes. rewrite <- app_assoc. reflexivity.
+Qed.
+
+(* footer fields: summary_start / summary_offset_start are the positions where the summary section /
+   the summary offset records start (0 when absent); the crc covers the summary section and the
+   footer record up to the crc field *)
+Theorem py_footer_fields :
+  let w1 := closed_state in
+  let pre := before_dataend ++ [dataend_item w1] in
+  footer_ss o w1 = (if blen (render (summary_of o w1)) =? 0 then 0 else blen (render pre))
+  /\ footer_sos o w1 = (if po_summary_offsets o then blen (render (pre ++ sum_items o w1)) else 0)
+  /\ footer_crc o w1 = (if po_crcs o
+                         then crc32 (render (summary_of o w1)
+                                     ++ firstn 25 (render_item (IFooter (footer_ss o w1) (footer_sos o w1) (footer_crc o w1))))
+                         else 0).
+Proof.
+  cbv zeta. unfold footer_ss, footer_sos. rewrite summary_start_pos. repeat split.
+  - rewrite (render_app (before_dataend ++ _)), blen_app. reflexivity.
+  - unfold footer_crc at 1. destruct (po_crcs o); [|reflexivity]. f_equal. f_equal.
+    unfold footer_ss, footer_sos. rewrite summary_start_pos. reflexivity.
+Qed.
+
+End SessionLoc.
+
+(* ====================================================================== *)
+(** * 3d/3e. registered schemas and channels; the statistics record *)
+
+Lemma steps_schemas o cs : forall w,
+  pw_schemas (pw_steps o w cs) = pw_schemas w ++ reg_schemas (length (pw_schemas w)) cs.
+Proof.
+  induction cs as [|c cs IH]; intro w; [cbn [reg_schemas]; rewrite app_nil_r; reflexivity|].
+  unfold pw_steps. cbn [fold_left]. fold (pw_steps o (pw_step o w c) cs). rewrite IH, step_schemas.
+  destruct c; cbn [new_schema reg_schemas]; rewrite ?app_nil_r; try reflexivity.
+  rewrite <- app_assoc, app_length. cbn [length app schema_of]. rewrite Nat.add_1_r. reflexivity.
+Qed.
+
+Lemma steps_channels o cs : forall w,
+  pw_channels (pw_steps o w cs) = pw_channels w ++ reg_channels (length (pw_channels w)) cs.
+Proof.
+  induction cs as [|c cs IH]; intro w; [cbn [reg_channels]; rewrite app_nil_r; reflexivity|].
+  unfold pw_steps. cbn [fold_left]. fold (pw_steps o (pw_step o w c) cs). rewrite IH, step_channels.
+  destruct c; cbn [new_channel reg_channels]; rewrite ?app_nil_r; try reflexivity.
+  rewrite <- app_assoc, app_length. cbn [length app channel_of]. rewrite Nat.add_1_r. reflexivity.
+Qed.
+
+Definition log_min (ms : list message) : N :=
+  match ms with [] => 0 | m :: r => fold_left N.min (map m_log r) (m_log m) end.
+Definition log_max (ms : list message) : N := fold_left N.max (map m_log ms) 0.
+Definition chan_count (ch : N) (ms : list message) : N :=
+  N.of_nat (length (filter (fun m => m_chan m =? ch) ms)).
+
+Lemma log_min_snoc ms m :
+  log_min (ms ++ [m]) = match ms with [] => m_log m | _ => N.min (m_log m) (log_min ms) end.
+Proof.
+  destruct ms as [|m1 r]; [reflexivity|]. cbn [app log_min]. rewrite map_app, fold_left_app. cbn [map fold_left].
+  apply N.min_comm.
+Qed.
+Lemma log_max_snoc ms m : log_max (ms ++ [m]) = N.max (m_log m) (log_max ms).
+Proof. unfold log_max. rewrite map_app, fold_left_app. cbn [map fold_left]. apply N.max_comm. Qed.
+
+Lemma fold_min_le l : forall a, fold_left N.min l a <= a /\ Forall (fun x => fold_left N.min l a <= x) l
+                                 /\ (fold_left N.min l a = a \/ In (fold_left N.min l a) l).
+Proof.
+  induction l as [|x l IH]; intro a; cbn [fold_left].
+  - split; [lia|]. split; [constructor | left; reflexivity].
+  - destruct (IH (N.min a x)) as (H1 & H2 & H3). split; [lia|]. split.
+    + constructor; [lia | exact H2].
+    + destruct H3 as [H3|H3]; [|right; right; exact H3].
+      rewrite H3. destruct (N.min_spec a x) as [[_ E]|[_ E]]; rewrite E; [left; reflexivity | right; left; reflexivity].
+Qed.
+
+(* log_min is the least log time, log_max the greatest *)
+Lemma log_min_spec ms : ms <> [] -> In (log_min ms) (map m_log ms) /\ Forall (fun m => log_min ms <= m_log m) ms.
+Proof.
+  destruct ms as [|m r]; [congruence|]. intros _. cbn [log_min map].
+  destruct (fold_min_le (map m_log r) (m_log m)) as (H1 & H2 & H3). split.
+  - destruct H3 as [-> | H3]; [left; reflexivity | right; exact H3].
+  - constructor; [exact H1|]. rewrite Forall_map in H2. exact H2.
+Qed.
+Lemma fold_max_ge l : forall a, a <= fold_left N.max l a /\ Forall (fun x => x <= fold_left N.max l a) l
+                                 /\ (fold_left N.max l a = a \/ In (fold_left N.max l a) l).
+Proof.
+  induction l as [|x l IH]; intro a; cbn [fold_left].
+  - split; [lia|]. split; [constructor | left; reflexivity].
+  - destruct (IH (N.max a x)) as (H1 & H2 & H3). split; [lia|]. split.
+    + constructor; [lia | exact H2].
+    + destruct H3 as [H3|H3]; [|right; right; exact H3].
+      rewrite H3. destruct (N.max_spec a x) as [[_ E]|[_ E]]; rewrite E; [right; left; reflexivity | left; reflexivity].
+Qed.
+Lemma log_max_spec ms : Forall (fun m => m_log m <= log_max ms) ms /\ (ms <> [] -> In (log_max ms) (map m_log ms)).
+Proof.
+  unfold log_max. destruct (fold_max_ge (map m_log ms) 0) as (H1 & H2 & H3). split.
+  - rewrite Forall_map in H2. exact H2.
+  - intro Hne. destruct H3 as [H3|H3]; [|exact H3]. rewrite H3.
+    destruct ms as [|m r]; [congruence|]. rewrite Forall_map in H2. inversion H2 as [|x y Hx _]; subst.
+    rewrite H3 in Hx. left. lia.
+Qed.
+
+Definition SI (st : statistics) (nsch nch nck : nat) (pre : list pcall) : Prop :=
+  let ms := msgs_of pre in
+  st_messages st = N.of_nat (length ms) /\ st_schemas st = N.of_nat nsch /\ st_channels st = N.of_nat nch
+  /\ st_attachments st = N.of_nat (length (atts_of pre)) /\ st_metadata st = N.of_nat (length (mds_of pre))
+  /\ st_chunks st = N.of_nat nck /\ st_start st = log_min ms /\ st_end st = log_max ms
+  /\ forall ch, pn_get ch (st_counts st) = if chan_count ch ms =? 0 then None else Some (chan_count ch ms).
+
+Definition StatInv (w : pw) (pre : list pcall) : Prop :=
+  SI (pw_stats w) (length (pw_schemas w)) (length (pw_channels w)) (length (pw_chunks w)) pre.
+
+Lemma msgs_of_snoc pre c : msgs_of (pre ++ [c]) = msgs_of pre ++ msgs_of [c].
+Proof. unfold msgs_of. rewrite flat_map_app'. reflexivity. Qed.
+Lemma atts_of_snoc pre c : atts_of (pre ++ [c]) = atts_of pre ++ atts_of [c].
+Proof. unfold atts_of. rewrite flat_map_app'. reflexivity. Qed.
+Lemma mds_of_snoc pre c : mds_of (pre ++ [c]) = mds_of pre ++ mds_of [c].
+Proof. unfold mds_of. rewrite flat_map_app'. reflexivity. Qed.
+
+Section Stats.
+Variable o : pwopts.
+
+Lemma SI_fin_state w cb pre : StatInv w pre -> StatInv (fin_state o w cb) pre.
+Proof.
+  unfold StatInv, SI. cbn [fin_state pw_stats pw_schemas pw_channels pw_chunks st_inc_chunks
+    st_messages st_schemas st_channels st_attachments st_metadata st_chunks st_start st_end st_counts].
+  intros (H1 & H2 & H3 & H4 & H5 & H6 & H7 & H8 & H9). rewrite app_length. cbn [length].
+  repeat split; try assumption. lia.
+Qed.
+
+Lemma SI_maybe w cb pre : pw_cb w = Some cb -> StatInv w pre -> StatInv (pw_maybe_finalize o w) pre.
+Proof.
+  intros Hcb H. rewrite (maybe_spec o w cb Hcb). destruct (closes o cb); [apply SI_fin_state, H | exact H].
+Qed.
+
+Lemma SI_fin w pre : StatInv w pre -> StatInv (pw_finalize_chunk o w) pre.
+Proof.
+  intro H. rewrite fin_spec'. destruct (pw_cb w) as [cb|]; [|exact H].
+  destruct (cb_num cb =? 0); [exact H | apply SI_fin_state, H].
+Qed.
+
+Lemma SI_other st a b c pre x :
+  msgs_of [x] = [] -> atts_of [x] = [] -> mds_of [x] = [] -> SI st a b c pre -> SI st a b c (pre ++ [x]).
+Proof.
+  intros E1 E2 E3. unfold SI. rewrite msgs_of_snoc, atts_of_snoc, mds_of_snoc, E1, E2, E3, !app_nil_r. auto.
+Qed.
+
+Lemma step_StatInv w pre c : is_start c = false -> StatInv w pre -> StatInv (pw_step o w c) (pre ++ [c]).
+Proof.
+  destruct c as [p l|n e d|t me sid m|ch lg d pb sq|cr lg n me d|n m|]; intros Hs HS; [discriminate| | | | | |].
+  - cbn [pw_step]. unfold pw_data_record. cbn [pw_cb].
+    assert (H : forall cbo, StatInv
+       {| pw_out := pw_out w; pw_rb := pw_rb w; pw_atts := pw_atts w; pw_mds := pw_mds w; pw_channels := pw_channels w;
+          pw_schemas := pw_schemas w ++ [schema_of w n e d]; pw_cb := cbo; pw_chunks := pw_chunks w;
+          pw_stats := {| st_messages := st_messages (pw_stats w); st_schemas := st_schemas (pw_stats w) + 1;
+                         st_channels := st_channels (pw_stats w); st_attachments := st_attachments (pw_stats w);
+                         st_metadata := st_metadata (pw_stats w); st_chunks := st_chunks (pw_stats w);
+                         st_start := st_start (pw_stats w); st_end := st_end (pw_stats w); st_counts := st_counts (pw_stats w) |};
+          pw_crc := pw_crc w |} (pre ++ [PcSchema n e d])).
+    { intro cbo. unfold StatInv. cbn [pw_stats pw_schemas pw_channels pw_chunks]. apply SI_other; try reflexivity.
+      unfold StatInv, SI in *. cbn [st_messages st_schemas st_channels st_attachments st_metadata st_chunks st_start st_end st_counts].
+      destruct HS as (H1 & H2 & H3 & H4 & H5 & H6 & H7 & H8 & H9). rewrite app_length. cbn [length].
+      repeat split; try assumption. lia. }
+    destruct (pw_cb w) as [cb|]; [|apply (H None)].
+    eapply SI_maybe; [reflexivity|]. apply (H (Some _)).
+  - cbn [pw_step]. unfold pw_data_record. cbn [pw_cb].
+    assert (H : forall cbo, StatInv
+       {| pw_out := pw_out w; pw_rb := pw_rb w; pw_atts := pw_atts w; pw_mds := pw_mds w;
+          pw_channels := pw_channels w ++ [channel_of w t me sid m];
+          pw_schemas := pw_schemas w; pw_cb := cbo; pw_chunks := pw_chunks w;
+          pw_stats := {| st_messages := st_messages (pw_stats w); st_schemas := st_schemas (pw_stats w);
+                         st_channels := st_channels (pw_stats w) + 1; st_attachments := st_attachments (pw_stats w);
+                         st_metadata := st_metadata (pw_stats w); st_chunks := st_chunks (pw_stats w);
+                         st_start := st_start (pw_stats w); st_end := st_end (pw_stats w); st_counts := st_counts (pw_stats w) |};
+          pw_crc := pw_crc w |} (pre ++ [PcChannel t me sid m])).
+    { intro cbo. unfold StatInv. cbn [pw_stats pw_schemas pw_channels pw_chunks]. apply SI_other; try reflexivity.
+      unfold StatInv, SI in *. cbn [st_messages st_schemas st_channels st_attachments st_metadata st_chunks st_start st_end st_counts].
+      destruct HS as (H1 & H2 & H3 & H4 & H5 & H6 & H7 & H8 & H9). rewrite app_length. cbn [length].
+      repeat split; try assumption. lia. }
+    destruct (pw_cb w) as [cb|]; [|apply (H None)].
+    eapply SI_maybe; [reflexivity|]. apply (H (Some _)).
+  - cbn [pw_step].
+    set (st' := {| st_messages := st_messages (pw_stats w) + 1; st_schemas := _; st_channels := _; st_attachments := _;
+                   st_metadata := _; st_chunks := _; st_start := _; st_end := _; st_counts := _ |}).
+    assert (H : SI st' (length (pw_schemas w)) (length (pw_channels w)) (length (pw_chunks w)) (pre ++ [PcMessage ch lg d pb sq])).
+    { unfold StatInv, SI in *. rewrite msgs_of_snoc, atts_of_snoc, mds_of_snoc.
+      change (msgs_of [PcMessage ch lg d pb sq]) with [msg_of ch lg d pb sq].
+      change (atts_of [PcMessage ch lg d pb sq]) with (@nil (attachment * bytes)).
+      change (mds_of [PcMessage ch lg d pb sq]) with (@nil metadata). rewrite !app_nil_r.
+      destruct HS as (H1 & H2 & H3 & H4 & H5 & H6 & H7 & H8 & H9).
+      unfold st'. cbn [st_messages st_schemas st_channels st_attachments st_metadata st_chunks st_start st_end st_counts].
+      rewrite app_length, log_min_snoc, log_max_snoc. cbn [length msg_of m_log].
+      repeat split; try assumption.
+      - lia.
+      - rewrite H1. destruct (msgs_of pre) as [|m0 r]; [reflexivity|]. cbn [length].
+        destruct (N.eqb_spec (N.of_nat (S (length r))) 0); [lia|]. rewrite H7. reflexivity.
+      - rewrite H8. reflexivity.
+      - intro ch'. unfold chan_count. rewrite filter_app, app_length. cbn [filter msg_of m_chan].
+        destruct (N.eq_dec ch' ch) as [->|Hne].
+        + rewrite pn_get_set_same, N.eqb_refl. cbn [length]. rewrite (H9 ch). unfold chan_count.
+          set (k := length (filter (fun m => m_chan m =? ch) (msgs_of pre))).
+          destruct (N.eqb_spec (N.of_nat (k + 1)) 0); [lia|].
+          destruct (N.eqb_spec (N.of_nat k) 0) as [E|E]; f_equal; lia.
+        + rewrite pn_get_set_other by exact Hne. destruct (N.eqb_spec ch ch'); [congruence|]. cbn [length].
+          rewrite Nat.add_0_r. apply H9. }
+    cbn [pw_set_stats pw_cb]. destruct (pw_cb w) as [cb|].
+    + eapply SI_maybe; [reflexivity|]. exact H.
+    + exact H.
+  - cbn [pw_step]. unfold StatInv, SI in *. cbn [pw_flush pw_stats pw_schemas pw_channels pw_chunks
+      st_messages st_schemas st_channels st_attachments st_metadata st_chunks st_start st_end st_counts].
+    rewrite msgs_of_snoc, atts_of_snoc, mds_of_snoc.
+    change (msgs_of [PcAttachment cr lg n me d]) with (@nil message).
+    change (mds_of [PcAttachment cr lg n me d]) with (@nil metadata). rewrite !app_nil_r, app_length.
+    destruct HS as (H1 & H2 & H3 & H4 & H5 & H6 & H7 & H8 & H9). cbn [atts_of flat_map length app].
+    repeat split; try assumption. lia.
+  - cbn [pw_step]. unfold StatInv, SI in *. cbn [pw_flush pw_stats pw_schemas pw_channels pw_chunks
+      st_messages st_schemas st_channels st_attachments st_metadata st_chunks st_start st_end st_counts].
+    rewrite msgs_of_snoc, atts_of_snoc, mds_of_snoc.
+    change (msgs_of [PcMetadata n m]) with (@nil message).
+    change (atts_of [PcMetadata n m]) with (@nil (attachment * bytes)). rewrite !app_nil_r, app_length.
+    destruct HS as (H1 & H2 & H3 & H4 & H5 & H6 & H7 & H8 & H9). cbn [mds_of flat_map length app].
+    repeat split; try assumption. lia.
+  - cbn [pw_step]. rewrite finish_spec. unfold finish_state, pre_summary.
+    apply SI_fin in HS. unfold StatInv in *. cbn [pw_raw pw_flush pw_set_rb pw_stats pw_schemas pw_channels pw_chunks].
+    apply SI_other; try reflexivity. exact HS.
+Qed.
+
+Lemma steps_StatInv cs : forall w pre,
+  no_start cs = true -> StatInv w pre -> StatInv (pw_steps o w cs) (pre ++ cs).
+Proof.
+  induction cs as [|c cs IH]; intros w pre Hns HS.
+  - rewrite app_nil_r. exact HS.
+  - cbn [no_start forallb] in Hns. apply andb_true_iff in Hns. destruct Hns as [Hc Hns]. apply negb_true_iff in Hc.
+    unfold pw_steps. cbn [fold_left]. fold (pw_steps o (pw_step o w c) cs).
+    change (pre ++ c :: cs) with (pre ++ [c] ++ cs). rewrite app_assoc. apply IH; [exact Hns|].
+    apply step_StatInv; assumption.
+Qed.
+
+Lemma started_StatInv p l : StatInv (started o p l) [].
+Proof. unfold StatInv, SI, started. cbn. repeat split. Qed.
+
+(* 3(e): the statistics record finish() writes (pw_stats of closed_state, see sum_items) *)
+Theorem py_statistics p l cs :
+  no_start cs = true -> StatInv (closed_state o p l cs) cs.
+Proof.
+  intro Hns. unfold closed_state, final_state. apply SI_fin.
+  apply (steps_StatInv cs _ [] Hns (started_StatInv p l)).
+Qed.
+
+(* 3(d): the registered schemas and channels (repeated in the summary section) *)
+Theorem py_registered p l cs :
+  pw_schemas (closed_state o p l cs) = reg_schemas 0 cs /\ pw_channels (closed_state o p l cs) = reg_channels 0 cs.
+Proof.
+  unfold closed_state, final_state. destruct (fin_keeps o (pw_steps o (started o p l) cs)) as (_ & _ & -> & ->).
+  rewrite steps_schemas, steps_channels. split; reflexivity.
+Qed.
+
+End Stats.
+
+(* ====================================================================== *)
+(** * 3g. the DataEnd crc *)
+
+Definition is_reg (c : pcall) : bool :=
+  match c with PcSchema _ _ _ | PcChannel _ _ _ _ => true | _ => false end.
+(* the last data call registers a schema or a channel *)
+Definition ends_with_reg (cs : list pcall) : bool :=
+  match rev cs with c :: _ => is_reg c | [] => false end.
+
+Section DataCrc.
+Variable o : pwopts.
+
+Definition CrcInv (w : pw) : Prop := pw_crc w = if po_data_crcs o then crc32 (pw_out w) else 0.
+
+Lemma CrcInv_flush w : CrcInv w -> CrcInv (pw_flush o w).
+Proof.
+  unfold CrcInv. cbn [pw_flush pw_crc pw_out]. intros ->. destruct (po_data_crcs o); [apply py_crc_crc32 | reflexivity].
+Qed.
+
+Lemma CrcInv_fin_state w cb : CrcInv w -> CrcInv (fin_state o w cb).
+Proof.
+  unfold CrcInv. cbn [fin_state pw_crc pw_out]. intros ->. destruct (po_data_crcs o); [|reflexivity].
+  rewrite !py_crc_crc32. reflexivity.
+Qed.
+
+Lemma CrcInv_maybe w cb : pw_cb w = Some cb -> CrcInv w -> CrcInv (pw_maybe_finalize o w).
+Proof. intros Hcb H. rewrite (maybe_spec o w cb Hcb). destruct (closes o cb); [apply CrcInv_fin_state, H | exact H]. Qed.
+
+Lemma CrcInv_fin w : CrcInv w -> CrcInv (pw_finalize_chunk o w).
+Proof.
+  intro H. rewrite fin_spec'. destruct (pw_cb w) as [cb|]; [|exact H].
+  destruct (cb_num cb =? 0); [exact H | apply CrcInv_fin_state, H].
+Qed.
+
+(* the invariants of the data phase: the running crc covers the stream; with chunking the record
+   builder is empty between calls *)
+Definition DInv (w : pw) : Prop := CrcInv w /\ (pw_cb w <> None -> pw_rb w = []).
+
+Lemma rb_fin_state w cb : pw_rb (fin_state o w cb) = [].
+Proof. reflexivity. Qed.
+
+Lemma DInv_maybe w cb : pw_cb w = Some cb -> DInv w -> DInv (pw_maybe_finalize o w).
+Proof.
+  intros Hcb [Hc Hr]. split; [eapply CrcInv_maybe; eassumption|].
+  rewrite (maybe_spec o w cb Hcb). destruct (closes o cb); [reflexivity|]. exact Hr.
+Qed.
+
+Lemma step_DInv w c : is_start c = false -> is_finish c = false -> DInv w -> DInv (pw_step o w c).
+Proof.
+  destruct c as [p l|n e d|t me sid m|ch lg d pb sq|cr lg n me d|n m|]; intros Hs Hf [Hc Hr]; try discriminate.
+  - cbn [pw_step]. unfold pw_data_record. cbn [pw_cb]. destruct (pw_cb w) as [cb|] eqn:Hcb.
+    + eapply DInv_maybe; [reflexivity|]. split; [exact Hc|]. intros _. cbn [pw_set_cb pw_rb]. apply Hr. discriminate.
+    + split; [exact Hc|]. cbn [pw_set_rb pw_cb]. rewrite ?Hcb. congruence.
+  - cbn [pw_step]. unfold pw_data_record. cbn [pw_cb]. destruct (pw_cb w) as [cb|] eqn:Hcb.
+    + eapply DInv_maybe; [reflexivity|]. split; [exact Hc|]. intros _. cbn [pw_set_cb pw_rb]. apply Hr. discriminate.
+    + split; [exact Hc|]. cbn [pw_set_rb pw_cb]. rewrite ?Hcb. congruence.
+  - cbn [pw_step pw_set_stats pw_cb]. destruct (pw_cb w) as [cb|] eqn:Hcb.
+    + eapply DInv_maybe; [reflexivity|]. split; [exact Hc|]. intros _. cbn [pw_set_cb pw_rb]. apply Hr. discriminate.
+    + split; [|reflexivity]. apply CrcInv_flush. exact Hc.
+  - cbn [pw_step]. split; [|reflexivity].
+    match goal with |- CrcInv (pw_flush o ?x) => apply (CrcInv_flush x) end.
+    apply CrcInv_flush in Hc. exact Hc.
+  - cbn [pw_step]. split; [|reflexivity].
+    match goal with |- CrcInv (pw_flush o ?x) => apply (CrcInv_flush x) end.
+    apply CrcInv_flush in Hc. exact Hc.
+Qed.
+
+Lemma steps_DInv cs : forall w, data_calls cs = true -> DInv w -> DInv (pw_steps o w cs).
+Proof.
+  induction cs as [|c cs IH]; intros w Hd HI; [exact HI|].
+  cbn [data_calls forallb] in Hd. apply andb_true_iff in Hd. destruct Hd as [Hc Hd].
+  apply andb_true_iff in Hc. destruct Hc as [Hs Hf]. apply negb_true_iff in Hs. apply negb_true_iff in Hf.
+  unfold pw_steps. cbn [fold_left]. apply IH; [exact Hd|]. apply step_DInv; assumption.
+Qed.
+
+Lemma started_DInv p l : DInv (started o p l).
+Proof.
+  split; [|reflexivity]. unfold CrcInv, started. cbn [pw_step pw_flush pw_set_rb pw_raw pw_crc pw_out pw_rb pw_init app].
+  destruct (po_data_crcs o); [|reflexivity]. rewrite py_crc_0, py_crc_crc32. reflexivity.
+Qed.
+
+(* a non-registering call leaves the record builder empty when there is no chunk builder *)
+Lemma step_rb_nochunk w c :
+  pw_cb w = None -> is_start c = false -> is_finish c = false -> is_reg c = false -> pw_rb (pw_step o w c) = [].
+Proof.
+  intros Hcb Hs Hf Hr. destruct c; try discriminate; cbn [pw_step pw_set_stats pw_cb]; rewrite ?Hcb; reflexivity.
+Qed.
+
+Lemma chunk_cb_stays : forall cs w, pw_cb w <> None -> pw_cb (pw_steps o w cs) <> None.
+Proof.
+  intro cs. induction cs as [|c cs IH]; intros w Hn; [exact Hn|]. unfold pw_steps. cbn [fold_left]. apply IH.
+  destruct (pw_cb w) as [cb|] eqn:Hcb; [|congruence].
+  destruct c; cbn [pw_step]; unfold pw_data_record; cbn [pw_cb pw_set_stats pw_flush pw_set_rb pw_raw]; rewrite ?Hcb;
+    try discriminate;
+    try (match goal with |- pw_cb (pw_maybe_finalize o ?x) <> None =>
+           rewrite (maybe_spec o x _ eq_refl); match goal with |- context [closes o ?c] => destruct (closes o c) end;
+           cbn [fin_state pw_set_cb pw_cb]; discriminate end).
+  rewrite finish_spec. unfold finish_state, pre_summary. cbn [pw_raw pw_flush pw_set_rb pw_cb].
+  rewrite fin_spec', Hcb. destruct (cb_num cb =? 0); [rewrite Hcb|]; discriminate.
+Qed.
+
+Variables p l : bytes.
+Variable cs : list pcall.
+Hypothesis Hd : data_calls cs = true.
+
+Lemma closed_DInv : DInv (closed_state o p l cs).
+Proof.
+  unfold closed_state, final_state. pose proof (steps_DInv cs _ Hd (started_DInv p l)) as [Hc Hr].
+  split; [apply CrcInv_fin, Hc|]. rewrite fin_spec'. destruct (pw_cb (pw_steps o (started o p l) cs)) as [cb|] eqn:Hcb.
+  - destruct (cb_num cb =? 0); [rewrite Hcb; exact Hr | reflexivity].
+  - rewrite Hcb. exact Hr.
+Qed.
+
+(* the crc value written in the DataEnd record (see dataend_item) *)
+Theorem py_dataend_crc_value :
+  pw_crc (closed_state o p l cs) = if po_data_crcs o then crc32 (pw_out (closed_state o p l cs)) else 0.
+Proof. exact (proj1 closed_DInv). Qed.
+
+Lemma closed_rb :
+  po_chunking o = true \/ ends_with_reg cs = false -> pw_rb (closed_state o p l cs) = [].
+Proof.
+  intro H. destruct closed_DInv as [_ Hr].
+  assert (Hcb : pw_cb (started o p l) = if po_chunking o then Some cb_empty else None) by reflexivity.
+  destruct (po_chunking o) eqn:Hch.
+  - (* chunking: the chunk builder never disappears *)
+    apply Hr. unfold closed_state. rewrite fin_spec'.
+    pose proof chunk_cb_stays as G.
+    specialize (G cs (started o p l)). rewrite Hcb in G. specialize (G ltac:(discriminate)). fold (final_state o p l cs) in G.
+    destruct (pw_cb (final_state o p l cs)) as [cb|] eqn:E; [|congruence].
+    destruct (cb_num cb =? 0); [rewrite E|]; discriminate.
+  - destruct H as [H|H]; [discriminate|].
+    pose proof (nochunk_cb o cs _ Hcb) as Hn. fold (final_state o p l cs) in Hn.
+    unfold closed_state. rewrite (fin_none o _ Hn). unfold final_state.
+    unfold ends_with_reg in H. destruct (rev cs) as [|c r] eqn:Er.
+    + apply (f_equal (@rev pcall)) in Er. rewrite rev_involutive in Er. subst cs. reflexivity.
+    + apply (f_equal (@rev pcall)) in Er. rewrite rev_involutive in Er. cbn [rev] in Er. subst cs.
+      rewrite pw_steps_app. unfold pw_steps at 1. cbn [fold_left].
+      unfold data_calls in Hd. rewrite forallb_app in Hd. apply andb_true_iff in Hd. destruct Hd as [_ Hd'].
+      cbn [forallb] in Hd'. rewrite andb_true_r in Hd'. apply andb_true_iff in Hd'. destruct Hd' as [Hs Hf].
+      apply negb_true_iff in Hs. apply negb_true_iff in Hf.
+      apply step_rb_nochunk; try assumption. apply nochunk_cb, Hcb.
+Qed.
+
+(* with chunking, or when the last data call is not a registration, the DataEnd crc is the crc of
+   everything before the DataEnd record *)
+Theorem py_dataend_crc_ok :
+  po_data_crcs o = true -> po_chunking o = true \/ ends_with_reg cs = false ->
+  pw_crc (closed_state o p l cs) = crc32 (render (before_dataend o p l cs)).
+Proof.
+  intros Hdc H. rewrite py_dataend_crc_value, Hdc.
+  destruct (py_index_positions o p l cs (data_calls_no_start cs Hd)) as (Hb & _). rewrite <- Hb.
+  unfold obytes. rewrite (closed_rb H), app_nil_r. reflexivity.
+Qed.
+
+(* in general the crc covers the stream only: the schema / channel records still in the record
+   builder (no chunking, registered after the last message / attachment / metadata call) are
+   written together with the DataEnd record, after the crc value was read *)
+Theorem py_dataend_crc_general :
+  po_data_crcs o = true ->
+  render (before_dataend o p l cs) = pw_out (closed_state o p l cs) ++ pw_rb (closed_state o p l cs)
+  /\ pw_crc (closed_state o p l cs) = crc32 (pw_out (closed_state o p l cs)).
+Proof.
+  intro Hdc. destruct (py_index_positions o p l cs (data_calls_no_start cs Hd)) as (Hb & _).
+  split; [symmetry; exact Hb|]. rewrite py_dataend_crc_value, Hdc. reflexivity.
+Qed.
+
+End DataCrc.
+
+(* ====================================================================== *)
+(** * 2c. the size bounds follow from a bound on the file size *)
+
+Lemma render_item_le it items : In it items -> blen (render_item it) <= blen (render items).
+Proof.
+  induction items as [|x items IH]; intro Hin; [destruct Hin|]. rewrite render_cons, blen_app.
+  destruct Hin as [-> | Hin]; [lia | specialize (IH Hin); lia].
+Qed.
+
+Section Total.
+Variable lo : lopts.
+Variable T : N.
+Hypothesis HT : T < 1073741824.
+Hypothesis Hmr : lo_max_record lo = 0 \/ T <= lo_max_record lo.
+Hypothesis Hmc : lo_max_chunk lo = 0 \/ T <= lo_max_chunk lo.
+
+Lemma len_ok_le n : n <= T -> len_ok lo n.
+Proof.
+  intro Hn. unfold len_ok. destruct Hmr as [E|E].
+  - rewrite E. reflexivity.
+  - destruct (N.ltb_spec (lo_max_record lo) n); [lia|]. apply andb_false_r.
+Qed.
+
+Lemma max_chunk_le n : n <= T -> ((0 <? lo_max_chunk lo) && (lo_max_chunk lo <? n)) = false.
+Proof.
+  intro Hn. destruct Hmc as [E|E].
+  - rewrite E. reflexivity.
+  - destruct (N.ltb_spec (lo_max_chunk lo) n); [lia|]. apply andb_false_r.
+Qed.
+
+Lemma lt_max_int32 n : n <= T -> n < max_int32.
+Proof. unfold max_int32. lia. Qed.
+Lemma lt_two63 n : n <= T -> n < two63.
+Proof. unfold two63. lia. Qed.
+Lemma lt_two64 n : n <= T -> n < two64.
+Proof. unfold two64. lia. Qed.
+
+Definition sized (it : item) : Prop :=
+  blen (render_item it) <= T /\ match it with IFooter ss sos _ => ss <= T /\ sos <= T | _ => True end.
+
+Lemma built_sized_ok it : item_built it -> sized it -> item_size_ok lo it.
+Proof.
+  destruct it as [|op body|k|a data crc|ss sos crc]; unfold sized; cbn [item_built item_size_ok render_item]; intros Hb [Hs Hx].
+  - exact I.
+  - rewrite pyw_blen_frame in Hs. unfold rec_size_ok. cbn [snd]. split; [apply lt_max_int32 | apply len_ok_le]; lia.
+  - destruct Hb as (_ & _ & Hc & Hu & _ & inner & Hr & _). rewrite pyw_blen_frame, enc_chunk_blen, Hc in Hs.
+    change (blen []) with 0 in Hs.
+    assert (H64 : Forall (fun r => blen (snd r) < two64) inner).
+    { eapply Forall_impl; [|apply frames_body_le]. cbv beta. intros r Hle. rewrite <- Hr in Hle. apply lt_two64. lia. }
+    repeat split.
+    + apply len_ok_le. rewrite enc_chunk_blen, Hc. change (blen []) with 0. lia.
+    + apply lt_two63. lia.
+    + rewrite Hr, split_records_frames by (exact H64 || lia).
+      eapply Forall_impl; [|apply frames_body_le]. cbv beta. intros r Hle. rewrite <- Hr in Hle.
+      split; [apply lt_max_int32 | apply len_ok_le]; lia.
+    + rewrite Hu. unfold max_int32. lia.
+    + apply max_chunk_le. lia.
+  - rewrite pyw_blen_frame in Hs. unfold attach_body. split; [apply lt_two63 | apply len_ok_le]; lia.
+  - destruct Hx as [H1 H2]. rewrite pyw_blen_frame in Hs. repeat split; try (apply lt_two64; assumption).
+    apply len_ok_le. change (blen (enc_footer _)) with 20 in Hs. lia.
+Qed.
+
+End Total.
+
+Section TotalMain.
+Variable o : pwopts.
+Variable lo : lopts.
+
+Lemma py_trace_built p l cs b :
+  py_write o (PcStart p l :: cs ++ [PcFinish]) = POk b -> data_calls cs = true ->
+  Forall item_built (data_items o p l cs ++ tail_items o p l cs).
+Proof.
+  intros Hw Hd. destruct (py_write_run _ _ _ Hw) as (w' & Hr & _).
+  cbn [pw_run] in Hr. destruct (pcall_ok (pw_init o) (PcStart p l)); [|discriminate]. fold (started o p l) in Hr.
+  apply pw_run_app in Hr. destruct Hr as (w1 & Hr1 & _).
+  destruct (data_built o cs _ _ _ (started_SInv o p l) Hd Hr1) as [Hb1 HI].
+  apply pw_run_steps in Hr1. subst w1. pose proof (finish_built o _ _ HI) as Hf.
+  unfold data_items, tail_items, finish_recs in *. fold (final_state o p l cs) in *. cbv zeta in *.
+  apply Forall_app in Hf. destruct Hf as [Hf1 Hf2].
+  apply Forall_app. split; [|exact Hf2].
+  constructor; [cbn; repeat split; discriminate|]. apply Forall_app. split; assumption.
+Qed.
+
+(* a file smaller than 1 GiB, and not larger than the lexer's limits, satisfies all size conditions *)
+Theorem py_sizes_from_total p l cs b :
+  py_write o (PcStart p l :: cs ++ [PcFinish]) = POk b -> data_calls cs = true ->
+  blen b < 1073741824 ->
+  lo_max_record lo = 0 \/ blen b <= lo_max_record lo ->
+  lo_max_chunk lo = 0 \/ blen b <= lo_max_chunk lo ->
+  Forall (item_size_ok lo) (py_trace o (PcStart p l :: cs ++ [PcFinish])).
+Proof.
+  intros Hw Hd HT Hmr Hmc.
+  pose proof (py_write_is_trace o p l cs b Hw (data_calls_no_start cs Hd)) as Hb.
+  pose proof (py_trace_built p l cs b Hw Hd) as Hbuilt.
+  rewrite Hb in HT, Hmr, Hmc. clear Hb. set (tr := py_trace o (PcStart p l :: cs ++ [PcFinish])) in *.
+  assert (Htr : tr = [IMagic] ++ (data_items o p l cs ++ tail_items o p l cs) ++ [IMagic]).
+  { unfold tr. rewrite py_trace_sections, <- !app_assoc. reflexivity. }
+  assert (Hsized : Forall (sized (blen (render tr))) (data_items o p l cs ++ tail_items o p l cs)).
+  { apply Forall_forall. intros it Hit. split.
+    - apply render_item_le. rewrite Htr. apply in_or_app. right. apply in_or_app. left. exact Hit.
+    - destruct it as [| | | |ss sos crc]; try exact I.
+      (* the only footer item is the last one of tail_items *)
+      assert (Hnf : forall w, ~ In (IFooter ss sos crc) (trace_from o (started o p l) cs) /\
+                              ~ In (IFooter ss sos crc) (fin_items o (pw_cb (final_state o p l cs))) /\
+                              ~ In (IFooter ss sos crc) (summary_of o w)).
+      { intro w. repeat split.
+        - assert (G : forall cs w0, data_calls cs = true -> ~ In (IFooter ss sos crc) (trace_from o w0 cs)).
+          { clear. intro cs. induction cs as [|c cs IH]; intros w0 Hd; [intros []|].
+            cbn [data_calls forallb] in Hd. apply andb_true_iff in Hd. destruct Hd as [Hc Hd].
+            apply andb_true_iff in Hc. destruct Hc as [Hs Hf]. apply negb_true_iff in Hs. apply negb_true_iff in Hf.
+            cbn [trace_from]. intro Hin. apply in_app_or in Hin. destruct Hin as [Hin|Hin]; [|exact (IH _ Hd Hin)].
+            assert (M : forall cbo, ~ In (IFooter ss sos crc) (maybe_items o cbo)).
+            { intros [cb|]; [|intros []]. rewrite maybe_items_spec. destruct (closes o cb); [|intros []].
+              intros [E|E]; [discriminate|]. unfold mi_items in E. destruct (po_idx_msg o); [|destruct E].
+              apply in_map_iff in E. destruct E as (x & E & _). discriminate. }
+            destruct c; try discriminate; cbn [pt_step] in Hin; unfold data_rec_items in Hin;
+              try (destruct (pw_cb w0); [exact (M _ Hin)|]);
+              destruct Hin as [E|[]]; discriminate. }
+          apply G, Hd.
+        - destruct (pw_cb (final_state o p l cs)) as [cb|]; [|intros []]. cbn [fin_items].
+          destruct (cb_num cb =? 0); [intros []|]. intros [E|E]; [discriminate|].
+          unfold mi_items in E. destruct (po_idx_msg o); [|destruct E]. apply in_map_iff in E. destruct E as (x & E & _). discriminate.
+        - unfold summary_of, sum_items, so_items. intro Hin.
+          repeat (apply in_app_or in Hin; destruct Hin as [Hin|Hin]);
+            match type of Hin with
+            | In _ (if ?b then _ else _) => destruct b; [|destruct Hin]
+            end;
+            try (apply in_map_iff in Hin; destruct Hin as (x & E & _); discriminate).
+          destruct Hin as [E|[]]; discriminate. }
+      unfold data_items, tail_items in Hit. cbv zeta in Hit. fold (closed_state o p l cs) in Hit.
+      destruct (Hnf (closed_state o p l cs)) as (N1 & N2 & N3).
+      assert (E : IFooter (footer_ss o (closed_state o p l cs)) (footer_sos o (closed_state o p l cs))
+                          (footer_crc o (closed_state o p l cs)) = IFooter ss sos crc).
+      { rewrite !in_app_iff in Hit. cbn [In app] in Hit. rewrite ?in_app_iff in Hit. cbn [In] in Hit.
+        unfold header_item, dataend_item in Hit.
+        repeat match type of Hit with
+               | _ \/ _ => destruct Hit as [Hit|Hit]
+               end; try discriminate; try contradiction; try exact Hit. }
+      injection E as <- <- _.
+        destruct (py_footer_fields o p l cs (data_calls_no_start cs Hd)) as (E1 & E2 & _). cbv zeta in E1, E2.
+        assert (Hsec : tr = (before_dataend o p l cs ++ [dataend_item (closed_state o p l cs)])
+                            ++ sum_items o (closed_state o p l cs)
+                            ++ so_items o (grp_offs (summary_start_of (closed_state o p l cs)) (sum_groups o (closed_state o p l cs)))
+                            ++ [IFooter (footer_ss o (closed_state o p l cs)) (footer_sos o (closed_state o p l cs))
+                                        (footer_crc o (closed_state o p l cs)); IMagic]).
+        { unfold tr. rewrite py_trace_sections. unfold before_dataend, tail_items, summary_of. cbv zeta.
+          fold (closed_state o p l cs). repeat (rewrite <- app_assoc || rewrite <- app_comm_cons). reflexivity. }
+        rewrite E1, E2. rewrite Hsec. rewrite ?render_app, ?blen_app.
+        split; [destruct (blen (render (summary_of o (closed_state o p l cs))) =? 0); lia
+               | destruct (po_summary_offsets o); lia]. }
+  rewrite Htr. apply Forall_app. split; [constructor; [exact I|constructor]|].
+  apply Forall_app. split; [|constructor; [exact I|constructor]].
+  clear Htr. revert Hbuilt Hsized. generalize (data_items o p l cs ++ tail_items o p l cs). intros its.
+  induction 1 as [|it its Hb _ IH]; intro Hs; [constructor|]. inversion Hs; subst.
+  constructor; [|apply IH; assumption].
+  apply (built_sized_ok lo (blen (render tr)) HT Hmr Hmc it Hb). assumption.
+Qed.
+
+End TotalMain.
+
+(* ====================================================================== *)
+(** * 3h. which schema / channel records are written; decoding what the lexer returns *)
+
+Lemma app_split_at {T} (Pm : T -> bool) (A : list T) : forall X D M B,
+  X ++ D = A ++ M :: B -> Pm M = true -> Forall (fun d => Pm d = false) D -> exists Y, X = A ++ M :: Y.
+Proof.
+  induction A as [|a A IH]; intros X D M B H HM HD.
+  - destruct X as [|x X].
+    + cbn [app] in H. subst D. inversion HD; subst. congruence.
+    + cbn [app] in H. injection H as -> _. exists X. reflexivity.
+  - destruct X as [|x X].
+    + cbn [app] in H. subst D. rewrite Forall_forall in HD.
+      assert (Hin : In M (a :: A ++ M :: B)) by (right; apply in_elt). apply HD in Hin. congruence.
+    + cbn [app] in H. injection H as -> H. destruct (IH _ _ _ _ H HM HD) as (Y & ->). exists Y. reflexivity.
+Qed.
+
+Lemma good_auto : P_good is_auto.
+Proof. split; [intro b; reflexivity|]. right. split; intros; reflexivity. Qed.
+
+Lemma filter_auto_inner inner : Forall auto_rec inner -> filter is_auto (map cr_of inner) = map cr_of inner.
+Proof.
+  induction 1 as [|r inner Hr _ IH]; [reflexivity|]. cbn [map filter]. unfold cr_of at 1. cbn [is_auto].
+  rewrite IH. destruct r as [op body]. unfold auto_rec in Hr. cbn [fst snd] in *.
+  destruct Hr as [-> | [-> | ->]]; reflexivity.
+Qed.
+
+Section Written.
+Variable o : pwopts.
+Variables p l : bytes.
+Variable unz : bytes -> bytes -> bytes.
+Hypothesis Hunz : forall stored, unz [] stored = stored.
+
+(* every schema / channel record registered before a message call is written to the data section:
+   the written ones start with them *)
+Theorem py_registered_before_message_written cs1 ch lg d pb sq cs2 b :
+  let cs := cs1 ++ PcMessage ch lg d pb sq :: cs2 in
+  py_write o (PcStart p l :: cs ++ [PcFinish]) = POk b -> data_calls cs = true ->
+  Forall chunk_small (py_trace o (PcStart p l :: cs ++ [PcFinish])) ->
+  (exists rest, filter (is_op OpSchema) (all_records unz (data_items o p l cs))
+                = map (fun s => CR OpSchema (enc_schema s)) (reg_schemas 0 cs1) ++ rest)
+  /\ (exists rest, filter (is_op OpChannel) (all_records unz (data_items o p l cs))
+                   = map (fun c => CR OpChannel (py_enc_channel c)) (reg_channels 0 cs1) ++ rest).
+Proof.
+  intros cs Hw Hd Hsm.
+  pose proof (py_data_content o p l cs unz Hunz b Hw Hd Hsm is_auto good_auto (fun _ => eq_refl)) as H.
+  rewrite (filter_auto_inner _ (dropped_auto o p l cs b Hw Hd)) in H.
+  unfold cs in H at 3. rewrite calls_recs_app in H. cbn [calls_recs call_recs] in H.
+  rewrite filter_app in H. cbn [app filter is_auto] in H. change (auto_op OpMessage) with true in H. cbv iota in H.
+  destruct (app_split_at (is_op OpMessage) _ _ _ _ _ H eq_refl) as (Y & HY).
+  { pose proof (dropped_no_msg o p l cs b Hw Hd) as Hn. clear - Hn.
+    induction (dropped o p l cs) as [|r dr IH]; [constructor|]. cbn [filter] in Hn. cbn [map].
+    destruct (is_msg_rec r) eqn:E; [discriminate|]. constructor; [exact E | apply IH, Hn]. }
+  split.
+  - exists (filter (is_op OpSchema) Y).
+    rewrite <- (filter_refine (is_op OpSchema) is_auto (all_records unz (data_items o p l cs))).
+    + rewrite HY, filter_app. cbn [filter is_op]. change (Byte.eqb OpMessage OpSchema) with false. cbv iota.
+      rewrite filter_refine, calls_recs_schemas; [reflexivity|].
+      intros [op x|a x c] E; [|discriminate]. cbn [is_op is_auto] in *. apply Byte.byte_dec_bl in E. subst op. reflexivity.
+    + intros [op x|a x c] E; [|discriminate]. cbn [is_op is_auto] in *. apply Byte.byte_dec_bl in E. subst op. reflexivity.
+  - exists (filter (is_op OpChannel) Y).
+    rewrite <- (filter_refine (is_op OpChannel) is_auto (all_records unz (data_items o p l cs))).
+    + rewrite HY, filter_app. cbn [filter is_op]. change (Byte.eqb OpMessage OpChannel) with false. cbv iota.
+      rewrite filter_refine, calls_recs_channels; [reflexivity|].
+      intros [op x|a x c] E; [|discriminate]. cbn [is_op is_auto] in *. apply Byte.byte_dec_bl in E. subst op. reflexivity.
+    + intros [op x|a x c] E; [|discriminate]. cbn [is_op is_auto] in *. apply Byte.byte_dec_bl in E. subst op. reflexivity.
+Qed.
+
+(* without chunking nothing is dropped *)
+Theorem py_nochunk_all_written cs b :
+  po_chunking o = false ->
+  py_write o (PcStart p l :: cs ++ [PcFinish]) = POk b -> data_calls cs = true ->
+  Forall chunk_small (py_trace o (PcStart p l :: cs ++ [PcFinish])) ->
+  filter (is_op OpSchema) (all_records unz (data_items o p l cs)) = map (fun s => CR OpSchema (enc_schema s)) (reg_schemas 0 cs)
+  /\ filter (is_op OpChannel) (all_records unz (data_items o p l cs))
+     = map (fun c => CR OpChannel (py_enc_channel c)) (reg_channels 0 cs).
+Proof.
+  intros Hc Hw Hd Hsm.
+  pose proof (py_data_schemas o p l cs unz Hunz b Hw Hd Hsm) as H1.
+  pose proof (py_data_channels o p l cs unz Hunz b Hw Hd Hsm) as H2.
+  rewrite (dropped_nochunking o p l cs Hc) in H1, H2. cbn [map filter] in H1, H2. rewrite app_nil_r in H1, H2.
+  split; assumption.
+Qed.
+
+End Written.
+
+(* ---------- what Go's parsers make of a metadata record written by Python ---------- *)
+(* Python writes the map in dict order; Go's getPrefixedMap replays the assignments (kv_build):
+   the result is the Go map with the same bindings (for repeated keys the last one wins) *)
+Theorem parse_py_metadata m :
+  blen (md_name m) < two32 -> Forall wf_kv (md_meta m) -> blen (py_enc_metadata m) < two32 ->
+  parse_metadata (py_enc_metadata m) = Ok {| md_name := md_name m; md_meta := kv_build (md_meta m) |}.
+Proof.
+  destruct m as [nm mt]. unfold py_enc_metadata, py_enc_map, parse_metadata. cbn [md_name md_meta]. cbv zeta.
+  intros H1 H2 H3. set (body := enc_kvs_body mt) in *. set (buf := pstr nm ++ u32 (blen body) ++ body) in *.
+  assert (HL : length buf = (4 + length nm + (4 + length body))%nat).
+  { unfold buf. rewrite !app_length, pstr_length, u32_length. reflexivity. }
+  unfold blen in H3. rewrite HL in H3.
+  assert (H : skipn 0 buf = pstr nm ++ u32 (blen body) ++ body ++ []) by (unfold buf; rewrite app_nil_r; reflexivity).
+  step get_pstr_step H.
+  assert (Hb : blen body < two32) by (unfold blen; lia).
+  unfold get_map. destruct (get_u32_step _ _ _ _ H Hb) as [E Sk]. rewrite E. cbn [bind].
+  rewrite (get_map_loop_ok buf (0 + 4 + length nm + 4) (blen body) [] mt (S (length buf)) 0 []).
+  - reflexivity.
+  - exact H2.
+  - cbn [skipn]. exact Sk.
+  - reflexivity.
+  - unfold blen. lia.
+  - pose proof (enc_kvs_body_length_ge mt). fold body in H0. lia.
+Qed.
+
+(* with distinct keys that is the map sorted by key, as Go's writer would have written it *)
+Corollary parse_py_metadata_distinct m :
+  blen (md_name m) < two32 -> wf_kvs (md_meta m) -> blen (py_enc_metadata m) < two32 ->
+  parse_metadata (py_enc_metadata m) = Ok {| md_name := md_name m; md_meta := kv_sort (rev (md_meta m)) |}.
+Proof.
+  intros H1 [ND F] H3. rewrite parse_py_metadata by assumption. rewrite kv_build_rev by exact ND. reflexivity.
+Qed.
+
+(* what struct.pack accepted *)
+Definition call_static_ok (c : pcall) : Prop :=
+  match c with
+  | PcMessage ch lg d pb sq => wf_message (msg_of ch lg d pb sq)
+  | PcMetadata n m => blen n < two32 /\ Forall wf_kv m
+  | _ => True
+  end.
+
+Lemma forallb_kv_wf m : forallb (fun kv => (blen (fst kv) <? two32) && (blen (snd kv) <? two32)) m = true -> Forall wf_kv m.
+Proof.
+  induction m as [|kv m IH]; intro H; [constructor|]. cbn [forallb] in H. apply andb_true_iff in H. destruct H as [H1 H2].
+  apply andb_true_iff in H1. destruct H1 as [Ha Hb]. constructor; [|apply IH, H2].
+  split; apply ltb_true; assumption.
+Qed.
+
+Lemma pw_run_static o cs : forall w w', pw_run o w cs = POk w' -> Forall call_static_ok cs.
+Proof.
+  induction cs as [|c cs IH]; intros w w' H; [constructor|]. cbn [pw_run] in H.
+  destruct (pcall_ok w c) eqn:Hok; [|discriminate]. constructor; [|eapply IH; exact H].
+  destruct c; try exact I; cbn [pcall_ok call_static_ok] in *.
+  - apply andb_true_iff in Hok. destruct Hok as [Hok H4]. apply andb_true_iff in Hok. destruct Hok as [Hok H3].
+    apply andb_true_iff in Hok. destruct Hok as [H1 H2]. unfold wf_message. cbn [msg_of m_chan m_seq m_log m_pub].
+    repeat split; apply ltb_true; assumption.
+  - apply andb_true_iff in Hok. destruct Hok as [H1 H2]. unfold kvs_in_range in H2. apply andb_true_iff in H2.
+    destruct H2 as [H2 _]. split; [apply ltb_true, H1 | apply forallb_kv_wf, H2].
+Qed.
+
+Section Decode.
+Variable o : pwopts.
+Variables p l : bytes.
+Variable cs : list pcall.
+Variable lo : lopts.
+Variable ds : doracle.
+Hypothesis Hemit : lo_emit_chunks lo = false.
+Hypothesis Hcustom : mem_bytes [] (lo_custom lo) = false.
+Variable b : bytes.
+Hypothesis Hw : py_write o (PcStart p l :: cs ++ [PcFinish]) = POk b.
+Hypothesis Hd : data_calls cs = true.
+Hypothesis Hsmall : Forall chunk_small (py_trace o (PcStart p l :: cs ++ [PcFinish])).
+
+Lemma session_static : Forall call_static_ok cs.
+Proof.
+  destruct (py_write_run _ _ _ Hw) as (w' & Hr & _). apply pw_run_static in Hr. inversion Hr as [|x y _ H]; subst.
+  apply Forall_app in H. apply H.
+Qed.
+
+(* Go's ParseMessage on the message tokens returns the messages written *)
+Theorem py_lex_messages_decoded :
+  map decode_event (filter (ev_op OpMessage) (file_events lo ds (py_trace o (PcStart p l :: cs ++ [PcFinish]))))
+  = map (fun m => Ok (KMessage m)) (msgs_of cs).
+Proof.
+  rewrite (py_lex_messages o p l cs lo ds Hemit Hcustom b Hw Hd Hsmall), map_map.
+  pose proof session_static as Hs. clear - Hs. induction Hs as [|c cs Hc _ IH]; [reflexivity|].
+  unfold msgs_of in *. cbn [flat_map]. rewrite !map_app, IH. f_equal.
+  destruct c; try reflexivity. cbn [map call_static_ok] in *. unfold decode_event.
+  change (Byte.eqb OpMessage OpHeader) with false. change (Byte.eqb OpMessage OpSchema) with false.
+  change (Byte.eqb OpMessage OpChannel) with false. change (Byte.eqb OpMessage OpMessage) with true. cbv iota.
+  rewrite (parse_enc_message _ Hc). reflexivity.
+Qed.
+
+(* Go's ParseMetadata on the metadata tokens *)
+Theorem py_lex_metadata_decoded :
+  Forall (fun m => blen (py_enc_metadata m) < two32) (mds_of cs) ->
+  map decode_event (filter (ev_op OpMetadata) (file_events lo ds (py_trace o (PcStart p l :: cs ++ [PcFinish]))))
+  = map (fun m => Ok (KMetadata {| md_name := md_name m; md_meta := kv_build (md_meta m) |})) (mds_of cs).
+Proof.
+  intro Hsz. rewrite (py_lex_metadata o p l cs lo ds Hemit Hcustom b Hw Hd Hsmall), map_map.
+  pose proof session_static as Hs. clear - Hs Hsz. induction Hs as [|c cs Hc _ IH]; [reflexivity|].
+  unfold mds_of in *. cbn [flat_map] in *. apply Forall_app in Hsz. destruct Hsz as [Hsz1 Hsz2].
+  rewrite !map_app, (IH Hsz2). f_equal.
+  destruct c; try reflexivity. cbn [map call_static_ok] in *. unfold decode_event.
+  change (Byte.eqb OpMetadata OpHeader) with false. change (Byte.eqb OpMetadata OpSchema) with false.
+  change (Byte.eqb OpMetadata OpChannel) with false. change (Byte.eqb OpMetadata OpMessage) with false.
+  change (Byte.eqb OpMetadata OpMetadata) with true. cbv iota.
+  inversion Hsz1 as [|x y Hx _]; subst. destruct Hc as [Hc1 Hc2].
+  rewrite parse_py_metadata by assumption. reflexivity.
+Qed.
+
+End Decode.
+
